@@ -1,19 +1,19 @@
 //! `--macro-history`: random histories of calls and invalidations on functions decorated with the REAL
 //! `#[cache]` / `#[cache_async]` macros, checked step by step against a model of the resident key set.
 //!
-//! A bounded stand-in (never a proof) for C04, C13, C07, C08, C01 (and C03, C12, C16) at the macro level
-//! (spec: /verif/notes/macro_history_spec.md, part B). No ttl, no max_memory, no sleeping.
+//! A bounded stand-in (never a proof) for C04, C05, C07, C08, C11, C12, C13, C01 (and C03, C16) at the macro level
+//! (spec: /verif/notes/macro_history_spec.md, part B, and its follow-ups). No ttl, no sleeping.
 //!
 //! ```text
-//! cachelito-replay --macro-history [--prop Cxx] [--seed N] [--iters N] [--max-ops N] [--out FILE]
+//! cachelito-replay --macro-history [--prop Cxx] [--seed N] [--iters N] [--max-ops N] [--pass dense|sparse|both] [--out FILE]
 //! cachelito-replay --macro-history-replay FILE          exit 0 held / 1 witness / 2 harness
 //! ```
 //!
 //! Semantics derived from the unchanged code (cachelito-core/src/global_cache.rs, async_global_cache.rs and the
-//! two macro crates); the model below implements exactly this:
+//! two macro crates); the models below implement exactly this:
 //!
-//! * The wrapper looks the key up (`get`), on a miss runs the body and stores the result (`insert`). Keys are the
-//!   Debug text of the argument: `h(3)` has key `"3"`.
+//! * The wrapper looks the key up (`get`), on a miss runs the body and stores the result (`insert`, with `max_memory`
+//!   `insert_with_memory`). Keys are the Debug text of the argument: `h(3)` has key `"3"`.
 //! * sync global `insert`: the store gets the entry FIRST, the key is appended to the queue, and only then, if the
 //!   queue is longer than `limit`, one victim is chosen AMONG THE QUEUE INCLUDING THE NEW KEY:
 //!   FIFO / LRU pop the front (never the new key for limit >= 1); LFU takes the first key in queue order with the
@@ -26,15 +26,35 @@
 //!   LFU takes the first key in queue order with the strictly smallest hit count among the residents.
 //! * a hit moves the key to the back of the queue under LRU (ARC, TLRU) and adds one to its hit count under LFU
 //!   (ARC, TLRU); FIFO and Random hits change nothing. A new entry has 0 hits.
+//! * `max_memory = M` (family M). A value is accounted with `MemoryEstimator::estimate_memory` (String: 24 + capacity;
+//!   the wrappers store a CLONE of the result, whose capacity is its length). A value that alone exceeds M is not
+//!   kept and displaces nothing (sync: stored, measured, removed again; async: never stored). Otherwise victims are
+//!   removed in policy order only WHILE the total (new value included) exceeds M: sync again among the queue including
+//!   the new key (LFU / ARC / TLRU / Random may remove the new key itself, FIFO / LRU pop the front), async among the
+//!   residents before the new key is stored. With `limit` as well, the entry limit is applied AFTER the memory loop
+//!   (sync: queue longer than limit; async: store already holds limit entries): at most one more victim.
+//! * re-store of a key that is still cached (family R: `invalidate_on` says stale, the body runs again and the wrapper
+//!   stores again). The lookup that precedes it is an ordinary hit (LRU / LFU bookkeeping as above). sync `insert`:
+//!   the map entry is overwritten by a fresh one (0 hits), the key is taken out of the queue and appended again; the
+//!   queue is not longer than before, so nothing is evicted. async `insert` (no max_memory): the key is un-queued,
+//!   the entry-limit eviction is SKIPPED (`replacing`), the key is appended and the entry overwritten (0 hits). In
+//!   both flavours and under every policy a refreshed key therefore becomes the NEWEST store / most recently used,
+//!   its hit count restarts at 0, and the resident set does not change.
 //! * `invalidate_with` / `invalidate_all_with` reach every global / async cache once it has been used (the callback
-//!   is registered on first use) and remove the matching keys from store AND queue. `invalidate_cache(name)` only
-//!   reaches caches that declare a tag, an event or a dependency (the clear callback is registered together with the
-//!   metadata): the functions below therefore declare one private tag each, otherwise `InvalidateCache` would be a
-//!   no-op that answers false.
+//!   is registered on first use) and remove the matching keys from store AND queue. `invalidate_cache(name)` and
+//!   `invalidate_by_tag(tag)` only reach caches that declare a tag, an event or a dependency (the clear callback is
+//!   registered together with the metadata): the functions below therefore declare one private tag each.
 //!
-//! Two passes over the same 24 configurations, on separate decorated functions (`--pass dense|sparse|both`, default
-//! both, `--iters` histories per configuration in each):
-//! * dense: the resident keys are listed after EVERY operation (exact victim of every store). The listing is itself an
+//! Three families of configurations ({global, async} each), every one on decorated functions of its own:
+//! * base: policy in {fifo, lru, lfu, arc, random, tlru} x limit in {2, 3}; body `a * 1000 + 7`.
+//! * mem (C05): the six policies x {max_memory only, limit 3 + max_memory}; the body returns a String whose length
+//!   depends on the key (key 5 alone exceeds M).
+//! * restore (C11, C12, C04, C07): `invalidate_on = check` with a verdict the history switches (`SetStale`), in
+//!   {unbounded, limit 3 fifo, limit 3 lru, limit 3 lfu}; the body returns `a * 1000 + run number`; also `InvalidateByTag`.
+//!
+//! Two passes over all configurations, on separate decorated functions (`--pass dense|sparse|both`, default both,
+//! `--iters` histories per configuration in each):
+//! * dense: the resident keys are listed after EVERY operation (exact victims of every store). The listing is itself an
 //!   `invalidate_with(name, |k| { record; false })`, i.e. it runs the macro-emitted callback: a callback that leaves
 //!   stale queue slots behind but sweeps them at its next run is healed before the damage reaches a store.
 //! * sparse: no listing after calls. The resident keys are seen only inside the history's own `InvalidateWith` /
@@ -42,19 +62,20 @@
 //!   the end of the history; in between a model driven by the run counter (see `Sparse`). Keys 0..10, histories of up
 //!   to `--max-ops` + 10 operations that favour fill -> invalidate a subset -> refill past the limit -> final listing.
 //!
-//! Every cache is driven by a sequence of histories. The first one is its CONTROL: calls only, on the never used cache
-//! (no reset, no invalidation before or during it). Before every later history the cache is emptied through
-//! `invalidate_with(name, |_| true)` and nothing else is reset, so that damage to the queue carries over. Capacity and
-//! victim breaches are attributed to C04 / C07 / C08, and ALSO to C13 once an invalidation has removed an entry of that
-//! cache unless the control already showed the same kind of breach (see `step`).
+//! Every cache is driven by a sequence of histories. The first one is its CONTROL: calls only (restore: and verdict
+//! switches), on the never used cache (no reset, no invalidation before or during it). Before every later history the
+//! cache is emptied through `invalidate_with(name, |_| true)` and nothing else is reset, so that damage to the queue
+//! carries over. Capacity and victim breaches are attributed to C04 / C05 / C07 / C08, and ALSO to C13 once an
+//! invalidation has removed an entry of that cache unless the control already showed the same kind of breach (see `step`).
 use crate::macro_search::{block_on, instr, list_keys, panic_text, Rng};
 use cachelito::cache;
 use cachelito_async::cache_async;
+use cachelito_core::MemoryEstimator;
 use std::collections::{BTreeMap, BTreeSet};
 use std::fmt;
 use std::panic::{catch_unwind, AssertUnwindSafe};
 use std::sync::atomic::{AtomicBool, AtomicUsize, Ordering};
-use std::sync::Mutex;
+use std::sync::{Mutex, OnceLock};
 use std::time::{Duration, Instant};
 
 const DEFAULT_OUT: &str = "/verif/.work/replays/macro_history.witness";
@@ -65,14 +86,84 @@ const FULL_MASK: u16 = (1 << ALPHABET) - 1;
 const WIDE_ALPHABET: u32 = 10;
 const WIDE_MASK: u16 = (1 << WIDE_ALPHABET) - 1;
 const HANG_SECS: u64 = 5;
-const PROPS: [&str; 8] = ["C01", "C03", "C04", "C07", "C08", "C12", "C13", "C16"];
+const PROPS: [&str; 10] = ["C01", "C03", "C04", "C05", "C07", "C08", "C11", "C12", "C13", "C16"];
 
 fn twin(a: u32) -> u64 {
     a as u64 * 1000 + 7
 }
 
 // ------------------------------------------------------------------------------------------------
-// the decorated functions: flavour x policy x limit
+// family M: values whose size depends on the key
+// ------------------------------------------------------------------------------------------------
+/// `max_memory` of every function of family M: the attribute needs a literal; `check_sizes` verifies that it is
+/// 2.5 average values.
+const MEM_M: usize = 685;
+/// the key whose value alone exceeds M
+const BIG_KEY: u32 = 5;
+
+fn mem_len(k: u32) -> usize {
+    if k == BIG_KEY {
+        1000
+    } else {
+        100 * (1 + (k % 4) as usize)
+    }
+}
+/// `"<k>:xxxx..."`, exactly `mem_len(k)` bytes, capacity == length.
+fn mem_value(k: u32) -> String {
+    let n = mem_len(k);
+    let mut s = String::with_capacity(n);
+    s.push_str(&format!("{k}:"));
+    while s.len() < n {
+        s.push('x');
+    }
+    s
+}
+/// What the real estimator says about the value the wrapper stores (a clone of the result).
+fn mem_size(k: u32) -> usize {
+    static SIZES: OnceLock<Vec<usize>> = OnceLock::new();
+    SIZES.get_or_init(|| (0..WIDE_ALPHABET).map(|k| mem_value(k).clone().estimate_memory()).collect())[k as usize]
+}
+/// The premises of family M.
+fn check_sizes() -> Result<(), String> {
+    let ordinary: Vec<usize> = (0..4).map(mem_size).collect();
+    let avg = ordinary.iter().sum::<usize>() as f64 / 4.0;
+    if (avg * 2.5).round() as usize != MEM_M {
+        return Err(format!("family M: 2.5 average values are {} bytes, the attribute literal is {MEM_M}", avg * 2.5));
+    }
+    for k in 0..WIDE_ALPHABET {
+        if (k == BIG_KEY) != (mem_size(k) > MEM_M) {
+            return Err(format!("family M: key {k} is estimated at {} bytes, M = {MEM_M}", mem_size(k)));
+        }
+    }
+    Ok(())
+}
+/// The u64 the harness compares: the twin's value iff the String is the right one.
+fn mem_wrap(a: u32, s: String) -> u64 {
+    if s == mem_value(a) {
+        twin(a)
+    } else {
+        u64::MAX - s.len() as u64
+    }
+}
+
+// ------------------------------------------------------------------------------------------------
+// family R: the verdict of `invalidate_on`, per cache name
+// ------------------------------------------------------------------------------------------------
+static STALE: Mutex<BTreeSet<&'static str>> = Mutex::new(BTreeSet::new());
+fn is_stale(name: &'static str) -> bool {
+    STALE.lock().unwrap_or_else(|e| e.into_inner()).contains(name)
+}
+fn set_stale(name: &'static str, stale: bool) {
+    let mut g = STALE.lock().unwrap_or_else(|e| e.into_inner());
+    if stale {
+        g.insert(name);
+    } else {
+        g.remove(name);
+    }
+}
+
+// ------------------------------------------------------------------------------------------------
+// the decorated functions
 // ------------------------------------------------------------------------------------------------
 #[derive(Clone, Copy, PartialEq, Eq, Debug)]
 enum Flavour {
@@ -124,7 +215,7 @@ impl Pol {
 /// How the resident keys are observed (the same configurations are driven twice, on separate functions).
 #[derive(Clone, Copy, PartialEq, Eq, Debug)]
 enum Pass {
-    /// a key listing after EVERY operation. Precise (exact victim of every store), but the listing is itself an
+    /// a key listing after EVERY operation. Precise (exact victims of every store), but the listing is itself an
     /// `invalidate_with(name, |k| { record; false })`: it RUNS the macro-emitted callback, and a callback that leaves
     /// stale queue slots behind but sweeps them at its next run is healed before the damage reaches a store.
     Dense,
@@ -141,84 +232,313 @@ impl Pass {
     }
 }
 
-#[derive(Clone, Copy)]
-struct Cfg {
-    pass: Pass,
-    flavour: Flavour,
-    policy: Pol,
-    limit: usize,
-    /// cache name = instrumentation slot
-    name: &'static str,
-    call: fn(u32) -> u64,
+#[derive(Clone, Copy, PartialEq, Eq, Debug)]
+enum Family {
+    /// entry limit only
+    Base,
+    /// max_memory (with and without limit), values of different sizes
+    Mem,
+    /// `invalidate_on` with a switchable verdict: re-stores of cached keys
+    Restore,
 }
-impl Cfg {
-    fn text(&self) -> String {
-        format!("flavour={} policy={} limit={} pass={}", self.flavour.name(), self.policy.name(), self.limit, self.pass.name())
+impl Family {
+    fn name(self) -> &'static str {
+        match self {
+            Family::Base => "base",
+            Family::Mem => "mem",
+            Family::Restore => "restore",
+        }
     }
 }
 
-macro_rules! hist_fn {
-    (G $f:ident $name:tt $tag:tt $policy:tt $limit:tt) => {
+#[derive(Clone, Copy)]
+struct Cfg {
+    pass: Pass,
+    family: Family,
+    flavour: Flavour,
+    policy: Pol,
+    limit: Option<usize>,
+    max_memory: Option<usize>,
+    /// cache name = instrumentation slot
+    name: &'static str,
+    /// the one tag the cache declares
+    tag: &'static str,
+    call: fn(u32) -> u64,
+}
+impl Cfg {
+    fn lim(&self) -> usize {
+        self.limit.unwrap_or(usize::MAX)
+    }
+    fn mem(&self) -> usize {
+        self.max_memory.unwrap_or(usize::MAX)
+    }
+    fn size(&self, k: u32) -> usize {
+        if self.family == Family::Mem && k < WIDE_ALPHABET {
+            mem_size(k)
+        } else {
+            0
+        }
+    }
+    fn bytes(&self, keys: &BTreeSet<u32>) -> usize {
+        keys.iter().map(|k| self.size(*k)).sum()
+    }
+    fn too_large(&self, k: u32) -> bool {
+        self.size(k) > self.mem()
+    }
+    /// the property a capacity breach is attributed to
+    fn cap_prop(&self) -> &'static str {
+        if self.max_memory.is_some() {
+            "C05"
+        } else {
+            "C04"
+        }
+    }
+    fn alphabet(&self) -> u32 {
+        match self.pass {
+            Pass::Dense => ALPHABET,
+            Pass::Sparse => WIDE_ALPHABET,
+        }
+    }
+    fn limit_text(&self) -> String {
+        self.limit.map_or("none".to_string(), |l| l.to_string())
+    }
+    fn text(&self) -> String {
+        let mem = self.max_memory.map_or(String::new(), |m| format!(" memory={m}"));
+        format!(
+            "flavour={} policy={} limit={}{mem} family={} pass={}",
+            self.flavour.name(),
+            self.policy.name(),
+            self.limit_text(),
+            self.family.name(),
+            self.pass.name()
+        )
+    }
+}
+
+macro_rules! fam_fn {
+    (B G $f:ident $name:tt $tag:tt $policy:tt $limit:tt) => {
         #[cache(name = $name, tags = [$tag], policy = $policy, limit = $limit)]
         fn $f(a: u32) -> u64 {
             instr::ran($name);
             twin(a)
         }
     };
-    (A $f:ident $name:tt $tag:tt $policy:tt $limit:tt) => {
+    (B A $f:ident $name:tt $tag:tt $policy:tt $limit:tt) => {
         #[cache_async(name = $name, tags = [$tag], policy = $policy, limit = $limit)]
         async fn $f(a: u32) -> u64 {
             instr::ran($name);
             twin(a)
         }
     };
-}
-macro_rules! hist_cfg {
-    ($pass:expr, G $f:ident $name:tt $policy:tt $limit:tt) => {
-        Cfg { pass: $pass, flavour: Flavour::Global, policy: Pol::parse($policy), limit: $limit, name: $name, call: |a| $f(a) }
+    (M G $f:ident $name:tt $tag:tt $policy:tt none) => {
+        #[cache(name = $name, tags = [$tag], policy = $policy, max_memory = 685)]
+        fn $f(a: u32) -> String {
+            instr::ran($name);
+            mem_value(a)
+        }
     };
-    ($pass:expr, A $f:ident $name:tt $policy:tt $limit:tt) => {
-        Cfg { pass: $pass, flavour: Flavour::Async, policy: Pol::parse($policy), limit: $limit, name: $name, call: |a| block_on($f(a)) }
+    (M G $f:ident $name:tt $tag:tt $policy:tt $limit:tt) => {
+        #[cache(name = $name, tags = [$tag], policy = $policy, limit = $limit, max_memory = 685)]
+        fn $f(a: u32) -> String {
+            instr::ran($name);
+            mem_value(a)
+        }
     };
-}
-/// One row = one configuration = two decorated functions with caches of their own: one per pass.
-macro_rules! hist_fns {
-    ($($fl:tt $f:ident $name:tt $tag:tt $sf:ident $sname:tt $stag:tt $policy:tt $limit:tt;)*) => {
-        $(hist_fn!($fl $f $name $tag $policy $limit);)*
-        $(hist_fn!($fl $sf $sname $stag $policy $limit);)*
-        fn configs(pass: Pass) -> Vec<Cfg> {
-            match pass {
-                Pass::Dense => vec![$(hist_cfg!(Pass::Dense, $fl $f $name $policy $limit)),*],
-                Pass::Sparse => vec![$(hist_cfg!(Pass::Sparse, $fl $sf $sname $policy $limit)),*],
+    (M A $f:ident $name:tt $tag:tt $policy:tt none) => {
+        #[cache_async(name = $name, tags = [$tag], policy = $policy, max_memory = 685)]
+        async fn $f(a: u32) -> String {
+            instr::ran($name);
+            mem_value(a)
+        }
+    };
+    (M A $f:ident $name:tt $tag:tt $policy:tt $limit:tt) => {
+        #[cache_async(name = $name, tags = [$tag], policy = $policy, limit = $limit, max_memory = 685)]
+        async fn $f(a: u32) -> String {
+            instr::ran($name);
+            mem_value(a)
+        }
+    };
+    (R G $f:ident $name:tt $tag:tt $policy:tt none) => {
+        mod $f {
+            use super::*;
+            fn check(_key: &String, _value: &u64) -> bool {
+                is_stale($name)
+            }
+            #[cache(name = $name, tags = [$tag], policy = $policy, invalidate_on = check)]
+            pub(super) fn h(a: u32) -> u64 {
+                a as u64 * 1000 + instr::ran($name)
+            }
+        }
+    };
+    (R G $f:ident $name:tt $tag:tt $policy:tt $limit:tt) => {
+        mod $f {
+            use super::*;
+            fn check(_key: &String, _value: &u64) -> bool {
+                is_stale($name)
+            }
+            #[cache(name = $name, tags = [$tag], policy = $policy, limit = $limit, invalidate_on = check)]
+            pub(super) fn h(a: u32) -> u64 {
+                a as u64 * 1000 + instr::ran($name)
+            }
+        }
+    };
+    (R A $f:ident $name:tt $tag:tt $policy:tt none) => {
+        mod $f {
+            use super::*;
+            fn check(_key: &String, _value: &u64) -> bool {
+                is_stale($name)
+            }
+            #[cache_async(name = $name, tags = [$tag], policy = $policy, invalidate_on = check)]
+            pub(super) async fn h(a: u32) -> u64 {
+                a as u64 * 1000 + instr::ran($name)
+            }
+        }
+    };
+    (R A $f:ident $name:tt $tag:tt $policy:tt $limit:tt) => {
+        mod $f {
+            use super::*;
+            fn check(_key: &String, _value: &u64) -> bool {
+                is_stale($name)
+            }
+            #[cache_async(name = $name, tags = [$tag], policy = $policy, limit = $limit, invalidate_on = check)]
+            pub(super) async fn h(a: u32) -> u64 {
+                a as u64 * 1000 + instr::ran($name)
             }
         }
     };
 }
-hist_fns! {
-    G hg_fifo_2 "mh_g_fifo_2" "mh_g_fifo_2_t" sg_fifo_2 "ms_g_fifo_2" "ms_g_fifo_2_t" "fifo" 2;
-    G hg_fifo_3 "mh_g_fifo_3" "mh_g_fifo_3_t" sg_fifo_3 "ms_g_fifo_3" "ms_g_fifo_3_t" "fifo" 3;
-    G hg_lru_2 "mh_g_lru_2" "mh_g_lru_2_t" sg_lru_2 "ms_g_lru_2" "ms_g_lru_2_t" "lru" 2;
-    G hg_lru_3 "mh_g_lru_3" "mh_g_lru_3_t" sg_lru_3 "ms_g_lru_3" "ms_g_lru_3_t" "lru" 3;
-    G hg_lfu_2 "mh_g_lfu_2" "mh_g_lfu_2_t" sg_lfu_2 "ms_g_lfu_2" "ms_g_lfu_2_t" "lfu" 2;
-    G hg_lfu_3 "mh_g_lfu_3" "mh_g_lfu_3_t" sg_lfu_3 "ms_g_lfu_3" "ms_g_lfu_3_t" "lfu" 3;
-    G hg_arc_2 "mh_g_arc_2" "mh_g_arc_2_t" sg_arc_2 "ms_g_arc_2" "ms_g_arc_2_t" "arc" 2;
-    G hg_arc_3 "mh_g_arc_3" "mh_g_arc_3_t" sg_arc_3 "ms_g_arc_3" "ms_g_arc_3_t" "arc" 3;
-    G hg_random_2 "mh_g_random_2" "mh_g_random_2_t" sg_random_2 "ms_g_random_2" "ms_g_random_2_t" "random" 2;
-    G hg_random_3 "mh_g_random_3" "mh_g_random_3_t" sg_random_3 "ms_g_random_3" "ms_g_random_3_t" "random" 3;
-    G hg_tlru_2 "mh_g_tlru_2" "mh_g_tlru_2_t" sg_tlru_2 "ms_g_tlru_2" "ms_g_tlru_2_t" "tlru" 2;
-    G hg_tlru_3 "mh_g_tlru_3" "mh_g_tlru_3_t" sg_tlru_3 "ms_g_tlru_3" "ms_g_tlru_3_t" "tlru" 3;
-    A ha_fifo_2 "mh_a_fifo_2" "mh_a_fifo_2_t" sa_fifo_2 "ms_a_fifo_2" "ms_a_fifo_2_t" "fifo" 2;
-    A ha_fifo_3 "mh_a_fifo_3" "mh_a_fifo_3_t" sa_fifo_3 "ms_a_fifo_3" "ms_a_fifo_3_t" "fifo" 3;
-    A ha_lru_2 "mh_a_lru_2" "mh_a_lru_2_t" sa_lru_2 "ms_a_lru_2" "ms_a_lru_2_t" "lru" 2;
-    A ha_lru_3 "mh_a_lru_3" "mh_a_lru_3_t" sa_lru_3 "ms_a_lru_3" "ms_a_lru_3_t" "lru" 3;
-    A ha_lfu_2 "mh_a_lfu_2" "mh_a_lfu_2_t" sa_lfu_2 "ms_a_lfu_2" "ms_a_lfu_2_t" "lfu" 2;
-    A ha_lfu_3 "mh_a_lfu_3" "mh_a_lfu_3_t" sa_lfu_3 "ms_a_lfu_3" "ms_a_lfu_3_t" "lfu" 3;
-    A ha_arc_2 "mh_a_arc_2" "mh_a_arc_2_t" sa_arc_2 "ms_a_arc_2" "ms_a_arc_2_t" "arc" 2;
-    A ha_arc_3 "mh_a_arc_3" "mh_a_arc_3_t" sa_arc_3 "ms_a_arc_3" "ms_a_arc_3_t" "arc" 3;
-    A ha_random_2 "mh_a_random_2" "mh_a_random_2_t" sa_random_2 "ms_a_random_2" "ms_a_random_2_t" "random" 2;
-    A ha_random_3 "mh_a_random_3" "mh_a_random_3_t" sa_random_3 "ms_a_random_3" "ms_a_random_3_t" "random" 3;
-    A ha_tlru_2 "mh_a_tlru_2" "mh_a_tlru_2_t" sa_tlru_2 "ms_a_tlru_2" "ms_a_tlru_2_t" "tlru" 2;
-    A ha_tlru_3 "mh_a_tlru_3" "mh_a_tlru_3_t" sa_tlru_3 "ms_a_tlru_3" "ms_a_tlru_3_t" "tlru" 3;
+macro_rules! lim {
+    (none) => {
+        None
+    };
+    ($l:tt) => {
+        Some($l)
+    };
+}
+macro_rules! fam_call {
+    (B G $f:ident) => {
+        |a| $f(a)
+    };
+    (B A $f:ident) => {
+        |a| block_on($f(a))
+    };
+    (M G $f:ident) => {
+        |a| mem_wrap(a, $f(a))
+    };
+    (M A $f:ident) => {
+        |a| mem_wrap(a, block_on($f(a)))
+    };
+    (R G $f:ident) => {
+        |a| $f::h(a)
+    };
+    (R A $f:ident) => {
+        |a| block_on($f::h(a))
+    };
+}
+macro_rules! fam_family {
+    (B) => {
+        (Family::Base, None::<usize>)
+    };
+    (M) => {
+        (Family::Mem, Some(MEM_M))
+    };
+    (R) => {
+        (Family::Restore, None::<usize>)
+    };
+}
+macro_rules! fam_flavour {
+    (G) => {
+        Flavour::Global
+    };
+    (A) => {
+        Flavour::Async
+    };
+}
+macro_rules! fam_cfg {
+    ($pass:expr, $k:tt $fl:tt $f:ident $name:tt $tag:tt $policy:tt $limit:tt) => {
+        Cfg {
+            pass: $pass,
+            family: fam_family!($k).0,
+            flavour: fam_flavour!($fl),
+            policy: Pol::parse($policy),
+            limit: lim!($limit),
+            max_memory: fam_family!($k).1,
+            name: $name,
+            tag: $tag,
+            call: fam_call!($k $fl $f),
+        }
+    };
+}
+/// One row = one configuration = two decorated functions with caches of their own: one per pass.
+macro_rules! fam_fns {
+    ($($k:tt $fl:tt $f:ident $name:tt $tag:tt $sf:ident $sname:tt $stag:tt $policy:tt $limit:tt;)*) => {
+        $(fam_fn!($k $fl $f $name $tag $policy $limit);)*
+        $(fam_fn!($k $fl $sf $sname $stag $policy $limit);)*
+        fn configs(pass: Pass) -> Vec<Cfg> {
+            match pass {
+                Pass::Dense => vec![$(fam_cfg!(Pass::Dense, $k $fl $f $name $tag $policy $limit)),*],
+                Pass::Sparse => vec![$(fam_cfg!(Pass::Sparse, $k $fl $sf $sname $stag $policy $limit)),*],
+            }
+        }
+    };
+}
+fam_fns! {
+    B G hg_fifo_2 "mh_g_fifo_2" "mh_g_fifo_2_t" sg_fifo_2 "ms_g_fifo_2" "ms_g_fifo_2_t" "fifo" 2;
+    B G hg_fifo_3 "mh_g_fifo_3" "mh_g_fifo_3_t" sg_fifo_3 "ms_g_fifo_3" "ms_g_fifo_3_t" "fifo" 3;
+    B G hg_lru_2 "mh_g_lru_2" "mh_g_lru_2_t" sg_lru_2 "ms_g_lru_2" "ms_g_lru_2_t" "lru" 2;
+    B G hg_lru_3 "mh_g_lru_3" "mh_g_lru_3_t" sg_lru_3 "ms_g_lru_3" "ms_g_lru_3_t" "lru" 3;
+    B G hg_lfu_2 "mh_g_lfu_2" "mh_g_lfu_2_t" sg_lfu_2 "ms_g_lfu_2" "ms_g_lfu_2_t" "lfu" 2;
+    B G hg_lfu_3 "mh_g_lfu_3" "mh_g_lfu_3_t" sg_lfu_3 "ms_g_lfu_3" "ms_g_lfu_3_t" "lfu" 3;
+    B G hg_arc_2 "mh_g_arc_2" "mh_g_arc_2_t" sg_arc_2 "ms_g_arc_2" "ms_g_arc_2_t" "arc" 2;
+    B G hg_arc_3 "mh_g_arc_3" "mh_g_arc_3_t" sg_arc_3 "ms_g_arc_3" "ms_g_arc_3_t" "arc" 3;
+    B G hg_random_2 "mh_g_random_2" "mh_g_random_2_t" sg_random_2 "ms_g_random_2" "ms_g_random_2_t" "random" 2;
+    B G hg_random_3 "mh_g_random_3" "mh_g_random_3_t" sg_random_3 "ms_g_random_3" "ms_g_random_3_t" "random" 3;
+    B G hg_tlru_2 "mh_g_tlru_2" "mh_g_tlru_2_t" sg_tlru_2 "ms_g_tlru_2" "ms_g_tlru_2_t" "tlru" 2;
+    B G hg_tlru_3 "mh_g_tlru_3" "mh_g_tlru_3_t" sg_tlru_3 "ms_g_tlru_3" "ms_g_tlru_3_t" "tlru" 3;
+    B A ha_fifo_2 "mh_a_fifo_2" "mh_a_fifo_2_t" sa_fifo_2 "ms_a_fifo_2" "ms_a_fifo_2_t" "fifo" 2;
+    B A ha_fifo_3 "mh_a_fifo_3" "mh_a_fifo_3_t" sa_fifo_3 "ms_a_fifo_3" "ms_a_fifo_3_t" "fifo" 3;
+    B A ha_lru_2 "mh_a_lru_2" "mh_a_lru_2_t" sa_lru_2 "ms_a_lru_2" "ms_a_lru_2_t" "lru" 2;
+    B A ha_lru_3 "mh_a_lru_3" "mh_a_lru_3_t" sa_lru_3 "ms_a_lru_3" "ms_a_lru_3_t" "lru" 3;
+    B A ha_lfu_2 "mh_a_lfu_2" "mh_a_lfu_2_t" sa_lfu_2 "ms_a_lfu_2" "ms_a_lfu_2_t" "lfu" 2;
+    B A ha_lfu_3 "mh_a_lfu_3" "mh_a_lfu_3_t" sa_lfu_3 "ms_a_lfu_3" "ms_a_lfu_3_t" "lfu" 3;
+    B A ha_arc_2 "mh_a_arc_2" "mh_a_arc_2_t" sa_arc_2 "ms_a_arc_2" "ms_a_arc_2_t" "arc" 2;
+    B A ha_arc_3 "mh_a_arc_3" "mh_a_arc_3_t" sa_arc_3 "ms_a_arc_3" "ms_a_arc_3_t" "arc" 3;
+    B A ha_random_2 "mh_a_random_2" "mh_a_random_2_t" sa_random_2 "ms_a_random_2" "ms_a_random_2_t" "random" 2;
+    B A ha_random_3 "mh_a_random_3" "mh_a_random_3_t" sa_random_3 "ms_a_random_3" "ms_a_random_3_t" "random" 3;
+    B A ha_tlru_2 "mh_a_tlru_2" "mh_a_tlru_2_t" sa_tlru_2 "ms_a_tlru_2" "ms_a_tlru_2_t" "tlru" 2;
+    B A ha_tlru_3 "mh_a_tlru_3" "mh_a_tlru_3_t" sa_tlru_3 "ms_a_tlru_3" "ms_a_tlru_3_t" "tlru" 3;
+    M G hmg_fifo_m "mh_g_fifo_m" "mh_g_fifo_m_t" smg_fifo_m "ms_g_fifo_m" "ms_g_fifo_m_t" "fifo" none;
+    M G hmg_fifo_m3 "mh_g_fifo_m3" "mh_g_fifo_m3_t" smg_fifo_m3 "ms_g_fifo_m3" "ms_g_fifo_m3_t" "fifo" 3;
+    M G hmg_lru_m "mh_g_lru_m" "mh_g_lru_m_t" smg_lru_m "ms_g_lru_m" "ms_g_lru_m_t" "lru" none;
+    M G hmg_lru_m3 "mh_g_lru_m3" "mh_g_lru_m3_t" smg_lru_m3 "ms_g_lru_m3" "ms_g_lru_m3_t" "lru" 3;
+    M G hmg_lfu_m "mh_g_lfu_m" "mh_g_lfu_m_t" smg_lfu_m "ms_g_lfu_m" "ms_g_lfu_m_t" "lfu" none;
+    M G hmg_lfu_m3 "mh_g_lfu_m3" "mh_g_lfu_m3_t" smg_lfu_m3 "ms_g_lfu_m3" "ms_g_lfu_m3_t" "lfu" 3;
+    M G hmg_arc_m "mh_g_arc_m" "mh_g_arc_m_t" smg_arc_m "ms_g_arc_m" "ms_g_arc_m_t" "arc" none;
+    M G hmg_arc_m3 "mh_g_arc_m3" "mh_g_arc_m3_t" smg_arc_m3 "ms_g_arc_m3" "ms_g_arc_m3_t" "arc" 3;
+    M G hmg_random_m "mh_g_random_m" "mh_g_random_m_t" smg_random_m "ms_g_random_m" "ms_g_random_m_t" "random" none;
+    M G hmg_random_m3 "mh_g_random_m3" "mh_g_random_m3_t" smg_random_m3 "ms_g_random_m3" "ms_g_random_m3_t" "random" 3;
+    M G hmg_tlru_m "mh_g_tlru_m" "mh_g_tlru_m_t" smg_tlru_m "ms_g_tlru_m" "ms_g_tlru_m_t" "tlru" none;
+    M G hmg_tlru_m3 "mh_g_tlru_m3" "mh_g_tlru_m3_t" smg_tlru_m3 "ms_g_tlru_m3" "ms_g_tlru_m3_t" "tlru" 3;
+    M A hma_fifo_m "mh_a_fifo_m" "mh_a_fifo_m_t" sma_fifo_m "ms_a_fifo_m" "ms_a_fifo_m_t" "fifo" none;
+    M A hma_fifo_m3 "mh_a_fifo_m3" "mh_a_fifo_m3_t" sma_fifo_m3 "ms_a_fifo_m3" "ms_a_fifo_m3_t" "fifo" 3;
+    M A hma_lru_m "mh_a_lru_m" "mh_a_lru_m_t" sma_lru_m "ms_a_lru_m" "ms_a_lru_m_t" "lru" none;
+    M A hma_lru_m3 "mh_a_lru_m3" "mh_a_lru_m3_t" sma_lru_m3 "ms_a_lru_m3" "ms_a_lru_m3_t" "lru" 3;
+    M A hma_lfu_m "mh_a_lfu_m" "mh_a_lfu_m_t" sma_lfu_m "ms_a_lfu_m" "ms_a_lfu_m_t" "lfu" none;
+    M A hma_lfu_m3 "mh_a_lfu_m3" "mh_a_lfu_m3_t" sma_lfu_m3 "ms_a_lfu_m3" "ms_a_lfu_m3_t" "lfu" 3;
+    M A hma_arc_m "mh_a_arc_m" "mh_a_arc_m_t" sma_arc_m "ms_a_arc_m" "ms_a_arc_m_t" "arc" none;
+    M A hma_arc_m3 "mh_a_arc_m3" "mh_a_arc_m3_t" sma_arc_m3 "ms_a_arc_m3" "ms_a_arc_m3_t" "arc" 3;
+    M A hma_random_m "mh_a_random_m" "mh_a_random_m_t" sma_random_m "ms_a_random_m" "ms_a_random_m_t" "random" none;
+    M A hma_random_m3 "mh_a_random_m3" "mh_a_random_m3_t" sma_random_m3 "ms_a_random_m3" "ms_a_random_m3_t" "random" 3;
+    M A hma_tlru_m "mh_a_tlru_m" "mh_a_tlru_m_t" sma_tlru_m "ms_a_tlru_m" "ms_a_tlru_m_t" "tlru" none;
+    M A hma_tlru_m3 "mh_a_tlru_m3" "mh_a_tlru_m3_t" sma_tlru_m3 "ms_a_tlru_m3" "ms_a_tlru_m3_t" "tlru" 3;
+    R G hg_r_unb "mh_g_r_unb" "mh_g_r_unb_t" sg_r_unb "ms_g_r_unb" "ms_g_r_unb_t" "lru" none;
+    R G hg_r_fifo "mh_g_r_fifo" "mh_g_r_fifo_t" sg_r_fifo "ms_g_r_fifo" "ms_g_r_fifo_t" "fifo" 3;
+    R G hg_r_lru "mh_g_r_lru" "mh_g_r_lru_t" sg_r_lru "ms_g_r_lru" "ms_g_r_lru_t" "lru" 3;
+    R G hg_r_lfu "mh_g_r_lfu" "mh_g_r_lfu_t" sg_r_lfu "ms_g_r_lfu" "ms_g_r_lfu_t" "lfu" 3;
+    R A ha_r_unb "mh_a_r_unb" "mh_a_r_unb_t" sa_r_unb "ms_a_r_unb" "ms_a_r_unb_t" "lru" none;
+    R A ha_r_fifo "mh_a_r_fifo" "mh_a_r_fifo_t" sa_r_fifo "ms_a_r_fifo" "ms_a_r_fifo_t" "fifo" 3;
+    R A ha_r_lru "mh_a_r_lru" "mh_a_r_lru_t" sa_r_lru "ms_a_r_lru" "ms_a_r_lru_t" "lru" 3;
+    R A ha_r_lfu "mh_a_r_lfu" "mh_a_r_lfu_t" sa_r_lfu "ms_a_r_lfu" "ms_a_r_lfu_t" "lfu" 3;
 }
 
 // ------------------------------------------------------------------------------------------------
@@ -233,6 +553,10 @@ enum Op {
     AllWith(u16),
     /// `invalidate_cache(name)`
     Cache,
+    /// `invalidate_by_tag(<the private tag of the cache>)`
+    ByTag,
+    /// family R: what `invalidate_on` answers from now on (true = the cached entry is stale)
+    Stale(bool),
 }
 fn mask_keys(mask: u16) -> Vec<u32> {
     (0..WIDE_ALPHABET).filter(|k| mask & (1 << k) != 0).collect()
@@ -247,6 +571,8 @@ impl fmt::Display for Op {
             Op::With(m) => write!(f, "InvalidateWith(key in {:?})", mask_keys(*m)),
             Op::AllWith(m) => write!(f, "InvalidateAllWith(this cache && key in {:?})", mask_keys(*m)),
             Op::Cache => write!(f, "InvalidateCache"),
+            Op::ByTag => write!(f, "InvalidateByTag"),
+            Op::Stale(b) => write!(f, "SetStale({b})"),
         }
     }
 }
@@ -257,12 +583,18 @@ impl Op {
             Op::With(m) => format!("with:{m}"),
             Op::AllWith(m) => format!("allwith:{m}"),
             Op::Cache => "cache".to_string(),
+            Op::ByTag => "bytag".to_string(),
+            Op::Stale(b) => format!("stale:{}", *b as u8),
         }
     }
     fn parse(t: &str) -> Result<Op, String> {
         let bad = || format!("bad operation {t:?}");
-        if t == "cache" {
-            return Ok(Op::Cache);
+        match t {
+            "cache" => return Ok(Op::Cache),
+            "bytag" => return Ok(Op::ByTag),
+            "stale:0" => return Ok(Op::Stale(false)),
+            "stale:1" => return Ok(Op::Stale(true)),
+            _ => {}
         }
         let (k, v) = t.split_once(':').ok_or_else(bad)?;
         match k {
@@ -272,17 +604,32 @@ impl Op {
             _ => Err(bad()),
         }
     }
+    fn is_invalidation(&self) -> bool {
+        matches!(self, Op::With(_) | Op::AllWith(_) | Op::Cache | Op::ByTag)
+    }
 }
 fn history_line(ops: &[Op]) -> String {
     format!("history={}", ops.iter().map(|o| o.token()).collect::<Vec<_>>().join(","))
 }
 
 /// The control history of a cache: calls only, three times as long as an ordinary history at most.
-fn gen_control(rng: &mut Rng, max_ops: usize) -> Vec<Op> {
+fn gen_control(rng: &mut Rng, alphabet: u32, max_ops: usize) -> Vec<Op> {
     let n = max_ops.max(1) + rng.below(2 * max_ops.max(1) + 1);
-    (0..n).map(|_| Op::Call(rng.below(ALPHABET as usize) as u32)).collect()
+    (0..n).map(|_| Op::Call(rng.below(alphabet as usize) as u32)).collect()
 }
 
+/// Control of family R: calls and verdict switches (no invalidation).
+fn gen_restore_control(rng: &mut Rng, alphabet: u32, max_ops: usize) -> Vec<Op> {
+    let n = max_ops.max(1) + rng.below(2 * max_ops.max(1) + 1);
+    (0..n)
+        .map(|_| match rng.below(8) {
+            0 => Op::Stale(rng.below(2) == 0),
+            _ => Op::Call(rng.below(alphabet as usize) as u32),
+        })
+        .collect()
+}
+
+/// Dense pass, families base and mem.
 fn gen_ops(rng: &mut Rng, max_ops: usize) -> Vec<Op> {
     let n = 1 + rng.below(max_ops.max(1));
     let mut ops = Vec::with_capacity(n);
@@ -308,15 +655,9 @@ fn gen_ops(rng: &mut Rng, max_ops: usize) -> Vec<Op> {
     ops
 }
 
-/// The control history of the sparse pass: calls only, over the wide alphabet.
-fn gen_sparse_control(rng: &mut Rng, max_ops: usize) -> Vec<Op> {
-    let n = max_ops.max(1) + rng.below(2 * max_ops.max(1) + 1);
-    (0..n).map(|_| Op::Call(rng.below(WIDE_ALPHABET as usize) as u32)).collect()
-}
-
-/// Histories of the sparse pass favour: fill -> invalidate a subset of what was filled -> refill PAST the limit with
-/// fresh keys -> (final listing), with no other invalidation between the invalidation and the refill. One in four is
-/// an unstructured mix over the wide alphabet.
+/// Histories of the sparse pass (families base and mem) favour: fill -> invalidate a subset of what was filled ->
+/// refill PAST the limit with fresh keys -> (final listing), with no other invalidation between the invalidation and
+/// the refill. One in four is an unstructured mix over the wide alphabet.
 fn gen_sparse(rng: &mut Rng, limit: usize, max_ops: usize) -> Vec<Op> {
     let max_ops = max_ops.max(1);
     let mut ops = Vec::new();
@@ -386,13 +727,87 @@ fn gen_sparse(rng: &mut Rng, limit: usize, max_ops: usize) -> Vec<Op> {
     ops
 }
 
+/// Family R (both passes): fill -> say "stale" and call cached keys (they are re-stored while cached) -> say "valid"
+/// -> a few hits -> one invalidation (by tag, by name, conditional) -> call the earlier keys again. One in three is an
+/// unstructured mix.
+fn gen_restore(rng: &mut Rng, alphabet: u32, max_ops: usize) -> Vec<Op> {
+    let max_ops = max_ops.max(1);
+    let full: u16 = ((1u32 << alphabet) - 1) as u16;
+    let mut ops = Vec::new();
+    if rng.below(3) == 0 {
+        let n = 1 + rng.below(max_ops);
+        let span = [3usize, 4, alphabet as usize][rng.below(3)];
+        for _ in 0..n {
+            let mask = (rng.next() >> 40) as u16 & full;
+            ops.push(match rng.below(100) {
+                0..=59 => Op::Call(rng.below(span) as u32),
+                60..=71 => Op::Stale(rng.below(2) == 0),
+                72..=79 => Op::With(mask),
+                80..=83 => Op::AllWith(mask),
+                84..=91 => Op::Cache,
+                _ => Op::ByTag,
+            });
+        }
+        return ops;
+    }
+    let mut recent: Vec<u32> = Vec::new();
+    while ops.len() < max_ops {
+        for _ in 0..2 + rng.below(3) {
+            let k = rng.below(alphabet as usize) as u32;
+            ops.push(Op::Call(k));
+            recent.push(k);
+        }
+        ops.push(Op::Stale(true));
+        for _ in 0..1 + rng.below(3) {
+            ops.push(Op::Call(recent[rng.below(recent.len())]));
+        }
+        if rng.below(4) == 0 {
+            let k = rng.below(alphabet as usize) as u32;
+            ops.push(Op::Call(k));
+            recent.push(k);
+        }
+        let still_stale = rng.below(5) == 0;
+        if !still_stale {
+            ops.push(Op::Stale(false));
+        }
+        for _ in 0..rng.below(3) {
+            ops.push(Op::Call(recent[rng.below(recent.len())]));
+        }
+        let subset: u16 = recent.iter().filter(|_| rng.below(2) == 0).fold(0, |m, k| m | (1 << k));
+        ops.push(match rng.below(10) {
+            0..=3 => Op::ByTag,
+            4..=6 => Op::Cache,
+            7..=8 => Op::With(subset),
+            _ => Op::AllWith(subset),
+        });
+        if still_stale && rng.below(2) == 0 {
+            ops.push(Op::Stale(false));
+        }
+        for _ in 0..1 + rng.below(3) {
+            ops.push(Op::Call(recent[rng.below(recent.len())]));
+        }
+    }
+    ops.truncate(max_ops);
+    ops
+}
+
+fn gen_history(rng: &mut Rng, cfg: &Cfg, control: bool, max_ops: usize) -> Vec<Op> {
+    match (cfg.family, cfg.pass, control) {
+        (Family::Restore, _, true) => gen_restore_control(rng, cfg.alphabet(), max_ops),
+        (Family::Restore, _, false) => gen_restore(rng, cfg.alphabet(), max_ops),
+        (_, _, true) => gen_control(rng, cfg.alphabet(), max_ops),
+        (_, Pass::Dense, false) => gen_ops(rng, max_ops),
+        (_, Pass::Sparse, false) => gen_sparse(rng, cfg.limit.unwrap_or(3), max_ops),
+    }
+}
+
 // ------------------------------------------------------------------------------------------------
-// the model
+// the dense model
 // ------------------------------------------------------------------------------------------------
 #[derive(Clone, Debug, Default)]
 struct Model {
     k: BTreeSet<u32>,
-    /// FIFO: insertion order; LRU (ARC, TLRU): recency order, least recently used first
+    /// FIFO: store order; LRU (ARC, TLRU): recency order, least recently used first
     order: Vec<u32>,
     /// successful lookups per resident key since it was stored
     hits: BTreeMap<u32, u64>,
@@ -409,6 +824,7 @@ impl Model {
         self.order.retain(|x| *x != k);
         self.hits.remove(&k);
     }
+    /// Also the effect of a RE-store of a resident key: newest in the queue, 0 hits.
     fn store(&mut self, k: u32) {
         self.drop_key(k);
         self.k.insert(k);
@@ -442,9 +858,28 @@ impl Model {
 fn strs(k: &BTreeSet<u32>) -> BTreeSet<String> {
     k.iter().map(|x| x.to_string()).collect()
 }
+fn parse_keys(obs: &BTreeSet<String>) -> BTreeSet<u32> {
+    obs.iter().filter_map(|s| s.parse::<u32>().ok()).collect()
+}
+
+/// FIFO / LRU: the victims of a store of the non-resident key `k` (not too large) into a cache whose queue is
+/// `order` (oldest first): the memory loop pops the front while the total with the new value exceeds M, then the
+/// entry limit pops one more if the survivors and the new key are more than `limit`. Same result in both flavours.
+fn fifo_victims(cfg: &Cfg, order: &[u32], k: u32) -> Vec<u32> {
+    let mut q: Vec<u32> = order.to_vec();
+    let mut out = Vec::new();
+    let total = |q: &[u32]| q.iter().map(|x| cfg.size(*x)).sum::<usize>().saturating_add(cfg.size(k));
+    while !q.is_empty() && total(&q) > cfg.mem() {
+        out.push(q.remove(0));
+    }
+    if !q.is_empty() && q.len() + 1 > cfg.lim() {
+        out.push(q.remove(0));
+    }
+    out
+}
 
 // ------------------------------------------------------------------------------------------------
-// the step oracle
+// what both passes share
 // ------------------------------------------------------------------------------------------------
 #[derive(Debug, Clone)]
 struct Breach {
@@ -474,438 +909,72 @@ fn observe(cfg: &Cfg) -> Result<BTreeSet<String>, Breach> {
     })
 }
 
-/// Runs one operation on the real cache and judges it. Returns every clause that failed (in order of
-/// importance); the model is advanced when nothing failed and re-synchronised otherwise.
-///
-///
-/// Attribution of capacity and victim breaches (C04 / C07 / C08) on a store: once an invalidation has removed an entry
-/// of this cache (`dirty`), such a breach is ALSO a breach of C13 ("after any invalidation, limits and eviction order
-/// behave as if the removed entries had never been stored") and is reported under both, so that `--prop C13` sees the
-/// damage an invalidation callback did to the queue (it only shows at a later store). Not, however, if the same kind of
-/// breach already showed in the CONTROL history of this cache (calls only, on the pristine cache, before any
-/// invalidation: then the engine is at fault, not the invalidation).
-fn step(cfg: &Cfg, ctx: &Ctx, st: &mut State, op: Op) -> Vec<Breach> {
-    if !st.used && !matches!(op, Op::Call(_)) {
-        // nothing is registered before the first call: the request would (rightly) find no cache
-        return Vec::new();
-    }
-    let State { model: m, used, dirty, control_failed, .. } = st;
-    if !*used {
-        *used = true;
-        WARMED.fetch_add(1, Ordering::Relaxed);
-    }
-    OPS.fetch_add(1, Ordering::Relaxed);
-    let mut out: Vec<Breach> = Vec::new();
-    let mut add = |prop: &'static str, what: String| out.push(Breach { prop, what });
-    let name = cfg.name;
-    let before = instr::runs(name);
-    // (value of a call, answer of an invalidation)
-    let done = catch_unwind(AssertUnwindSafe(|| match op {
-        Op::Call(k) => ((cfg.call)(k), 0usize),
-        Op::With(mask) => (0, cachelito_core::invalidate_with(name, |key| in_mask(mask, key)) as usize),
-        Op::AllWith(mask) => (0, cachelito_core::invalidate_all_with(|cache, key| cache == name && in_mask(mask, key))),
-        Op::Cache => (0, cachelito_core::invalidate_cache(name) as usize),
-    }));
-    let ran = instr::runs(name) - before;
-    let (value, answer) = match done {
-        Ok(x) => x,
-        Err(p) => {
-            let msg = panic_text(p.as_ref());
-            if msg.starts_with("harness:") {
-                add("HARNESS", msg);
-            } else {
-                add("C16", format!("the operation panicked: {msg}"));
-            }
-            (0, 0)
-        }
-    };
-    let panicked = !out.is_empty();
-    let obs = match catch_unwind(AssertUnwindSafe(|| observe(cfg))) {
-        Ok(Ok(o)) => o,
-        Ok(Err(b)) => {
-            out.push(b);
-            m.resync(&BTreeSet::new());
-            return out;
-        }
-        Err(p) => {
-            out.push(Breach { prop: "C16", what: format!("listing the keys after the operation panicked: {}", panic_text(p.as_ref())) });
-            m.resync(&BTreeSet::new());
-            return out;
-        }
-    };
-    let mut add = |prop: &'static str, what: String| out.push(Breach { prop, what });
-    let held = strs(&m.k);
-    let limit = cfg.limit;
-
-    if !panicked {
-        match op {
-            Op::Call(k) if m.k.contains(&k) => {
-                let want_runs: u64 = if ctx.selftest { 1 } else { 0 };
-                if ran != want_runs {
-                    add("C03", format!("key {k} is resident (keys {held:?}): the body ran {ran} times, expected {want_runs}"));
-                }
-                if value != twin(k) {
-                    add("C01", format!("key {k} is resident: served {value}, the uncached twin gives {}", twin(k)));
-                }
-                if obs != held {
-                    add("C04", format!("a hit on {k} changed the resident keys: {obs:?}, expected {held:?}"));
-                }
-                m.hit(cfg.policy, k);
-            }
-            Op::Call(k) => {
-                if ran != 1 {
-                    add("C03", format!("key {k} is not resident (keys {held:?}): the body ran {ran} times, expected 1"));
-                }
-                if value != twin(k) {
-                    add("C01", format!("key {k} is not resident: returned {value}, the uncached twin gives {}", twin(k)));
-                }
-                let mut plus = m.k.clone();
-                plus.insert(k);
-                let plus_s = strs(&plus);
-                if m.k.len() < limit {
-                    if obs != plus_s {
-                        add(
-                            "C04",
-                            format!("store of {k} into {held:?} ({} < limit {limit}, nothing to evict): keys {obs:?}, expected {plus_s:?}", m.k.len()),
-                        );
-                    } else {
-                        m.store(k);
-                    }
-                } else {
-                    let victims: Vec<&String> = plus_s.difference(&obs).collect();
-                    let foreign: Vec<&String> = obs.difference(&plus_s).collect();
-                    if !foreign.is_empty() || victims.len() != 1 || obs.len() != limit {
-                        add(
-                            "C04",
-                            format!(
-                                "store of {k} into the full cache {held:?} (limit {limit}): keys {obs:?}, expected {plus_s:?} minus exactly one victim \
-                                 (missing {victims:?}, unexpected {foreign:?})"
-                            ),
-                        );
-                    } else {
-                        let v: u32 = victims[0].parse().unwrap_or(u32::MAX);
-                        judge_victim(cfg, m, k, v, &mut add);
-                        m.store(k);
-                        m.drop_key(v);
-                    }
-                }
-            }
-            Op::With(mask) | Op::AllWith(mask) => {
-                let what = match op {
-                    Op::With(_) => "invalidate_with",
-                    _ => "invalidate_all_with",
-                };
-                let floor = match op {
-                    Op::With(_) => 1,
-                    _ => WARMED.load(Ordering::Relaxed),
-                };
-                if answer < floor {
-                    add("C13", format!("{what} answered {answer}, expected {} ({floor} caches have been used)", if floor == 1 { "true".to_string() } else { format!("at least {floor}") }));
-                }
-                let want: BTreeSet<u32> = m.k.iter().copied().filter(|k| mask & (1 << k) == 0).collect();
-                let want_s = strs(&want);
-                if want.len() < m.k.len() {
-                    *dirty = true;
-                }
-                if obs != want_s {
-                    add("C13", format!("{what}(key in {:?}) on {held:?}: keys {obs:?}, expected {want_s:?}", mask_keys(mask)));
-                } else {
-                    for k in mask_keys(mask) {
-                        m.drop_key(k);
-                    }
-                }
-            }
-            Op::Cache => {
-                if answer != 1 {
-                    add("C12", format!("invalidate_cache({name:?}) answered false: the cache declares a tag and has been used"));
-                }
-                if !m.k.is_empty() {
-                    *dirty = true;
-                }
-                if !obs.is_empty() {
-                    add("C12", format!("invalidate_cache({name:?}) on {held:?}: keys {obs:?}, expected none"));
-                } else {
-                    *m = Model::empty();
-                }
-            }
-        }
-    }
-    if obs.len() > limit {
-        add("C04", format!("{} keys {obs:?} after the operation, limit {limit}", obs.len()));
-    }
-    if matches!(op, Op::Call(_)) {
-        add_twins(*dirty, control_failed, false, &mut out);
-    }
-    if !out.is_empty() {
-        m.resync(&obs);
-    } else if m.k.is_empty() {
-        m.exact = true;
-    }
-    out
+/// The values: what the last execution for each key returned (= what any entry of that key must hold), which keys
+/// were refreshed while cached since their last ordinary store, the current verdict of `invalidate_on`.
+#[derive(Default)]
+struct Vals {
+    val: BTreeMap<u32, u64>,
+    refreshed: BTreeSet<u32>,
+    stale: bool,
 }
 
-/// `v` was evicted by the overflowing store of `k`.
-fn judge_victim(cfg: &Cfg, m: &Model, k: u32, v: u32, add: &mut impl FnMut(&'static str, String)) {
-    let held = strs(&m.k);
-    match (cfg.flavour, cfg.policy) {
-        (_, Pol::Fifo) | (_, Pol::Lru) => {
-            let (what, rule) = if cfg.policy == Pol::Fifo { ("FIFO", "the oldest store") } else { ("LRU", "the least recently used key") };
-            if v == k {
-                add("C07", format!("{what}: the store of {k} into {held:?} evicted the new key itself"));
-            } else if m.exact && m.order.first() != Some(&v) {
-                add("C07", format!("{what}: the store of {k} evicted {v}, expected {:?} ({rule}; order, oldest first: {:?})", m.order.first(), m.order));
-            }
-        }
-        (Flavour::Async, Pol::Lfu) => {
-            // candidates: the resident keys
-            let min = m.k.iter().map(|x| m.hits.get(x).copied().unwrap_or(0)).min().unwrap_or(0);
-            if v == k {
-                add("C08", format!("LFU (async): the store of {k} into {held:?} evicted the new key itself; the candidates are the resident keys"));
-            } else if m.exact && m.hits.get(&v).copied().unwrap_or(0) != min {
-                add("C08", format!("LFU (async): the store of {k} evicted {v} with {} hits, the minimum among the residents is {min} (hits {:?})", m.hits.get(&v).copied().unwrap_or(0), m.hits));
-            }
-        }
-        (Flavour::Global, Pol::Lfu) => {
-            // candidates: the resident keys and the new key (0 hits): the minimum is 0
-            if v != k && m.exact && m.hits.get(&v).copied().unwrap_or(0) != 0 {
-                add(
-                    "C08",
-                    format!(
-                        "LFU (sync): the store of {k} evicted {v} with {} hits; the new key (0 hits) is a candidate, so the victim must have 0 hits (hits {:?})",
-                        m.hits.get(&v).copied().unwrap_or(0),
-                        m.hits
-                    ),
-                );
-            }
-        }
-        (Flavour::Async, Pol::Arc) | (Flavour::Async, Pol::Tlru) => {
-            if v == k {
-                add("C08", format!("{} (async): the store of {k} into {held:?} evicted the new key itself; the candidates are the resident keys", cfg.policy.name()));
-            }
-        }
-        (Flavour::Async, Pol::Random) => {
-            if v == k {
-                add("C04", format!("random (async): the store of {k} into {held:?} evicted the new key itself; the victim is chosen before the new key is queued"));
-            }
-        }
-        // sync ARC / TLRU / Random: any single victim, the new key included
-        (Flavour::Global, _) => {}
-    }
-}
-
-// ------------------------------------------------------------------------------------------------
-// the sparse pass: model and oracle
-// ------------------------------------------------------------------------------------------------
-/// What is known about the resident keys BETWEEN two observations. Driven by the run counter alone: a call that ran the
-/// body was a miss, one that did not was a hit.
-///
-/// * `n`: the exact number of resident keys: a miss on a cache that is not full adds one, a miss on a full cache
-///   leaves `limit` (C04: "the cache holds min(N, number of distinct keys stored) entries"), invalidations are
-///   observation points and re-establish it.
-/// * `sure` (certainly resident) and `maybe` (possibly resident), `sure <= resident <= maybe`. They coincide (the set
-///   is exact) as long as every victim was unambiguous: FIFO / LRU with a known queue order, LFU with a unique
-///   minimum (sync: no resident with 0 hits => the NEW key is the victim, see the module comment). When the victim is
-///   ambiguous (LFU ties, ARC, TLRU, Random, or a queue order that is not known any more) every candidate leaves
-///   `sure`; the candidates are the residents, in the sync flavour under LFU / ARC / TLRU / Random also the new key
-///   (it is stored before the victim is chosen), in the async flavour never (the victim is removed before the new
-///   key is queued): there the key just stored is certainly resident.
-/// * every hit / miss on a key of `maybe - sure` is information and sharpens the sets.
-#[derive(Clone, Debug, Default)]
-struct Sparse {
-    /// None: unknown after a call the model could not explain (a breach has been reported); until the next observation
-    n: Option<usize>,
-    sure: BTreeSet<u32>,
-    maybe: BTreeSet<u32>,
-    /// `order` / `hits` describe the resident keys exactly (implies `sure == maybe`): true from an empty cache on for
-    /// as long as nothing ambiguous happens
-    meta: bool,
-    order: Vec<u32>,
-    hits: BTreeMap<u32, u64>,
-    /// keys removed by an invalidation and not stored since, with the property their resurrection is attributed to
-    gone: BTreeMap<u32, &'static str>,
-}
-impl Sparse {
-    fn empty() -> Sparse {
-        Sparse { n: Some(0), meta: true, ..Sparse::default() }
-    }
-    fn lose(&mut self) {
-        self.n = None;
-        self.meta = false;
-        self.sure.clear();
-        self.maybe = (0..WIDE_ALPHABET).collect();
-        self.order.clear();
-        self.hits.clear();
-    }
-    /// The set that was just observed (or adopted after a breach).
-    fn adopt(&mut self, set: &BTreeSet<u32>, keep_meta: bool) {
-        self.n = Some(set.len());
-        self.sure = set.clone();
-        self.maybe = set.clone();
-        if keep_meta && self.meta {
-            self.order.retain(|k| set.contains(k));
-            self.hits.retain(|k, _| set.contains(k));
-        } else {
-            self.meta = set.is_empty();
-            self.order.clear();
-            self.hits.clear();
-        }
-    }
-    fn sharpen(&mut self) {
-        if let Some(n) = self.n {
-            if self.sure.len() == n {
-                self.maybe = self.sure.clone();
-            } else if self.maybe.len() == n {
-                self.sure = self.maybe.clone();
-            }
-        }
-    }
-    fn describe(&self) -> String {
-        match self.n {
-            Some(_) if self.sure == self.maybe => format!("exactly {:?}", self.sure),
-            Some(n) => format!("{n} keys, certainly {:?}, possibly {:?}", self.sure, self.maybe),
-            None => "unknown".to_string(),
-        }
-    }
-    fn forget(&mut self, k: u32) {
-        self.sure.remove(&k);
-        self.maybe.remove(&k);
-        self.order.retain(|x| *x != k);
-        self.hits.remove(&k);
-    }
-    fn add(&mut self, k: u32) {
-        self.sure.insert(k);
-        self.maybe.insert(k);
-        if self.meta {
-            self.order.retain(|x| *x != k);
-            self.order.push(k);
-            self.hits.insert(k, 0);
-        }
-    }
-    /// A miss on `k` (known not to be resident) stored it.
-    fn store(&mut self, cfg: &Cfg, k: u32) {
-        self.gone.remove(&k);
-        let Some(n) = self.n else { return };
-        if n < cfg.limit {
-            self.n = Some(n + 1);
-            self.add(k);
-            return;
-        }
-        let sync = cfg.flavour == Flavour::Global;
-        let exact = self.sure == self.maybe && self.meta;
-        let hits_of = |m: &Sparse, x: &u32| m.hits.get(x).copied().unwrap_or(0);
-        // Some(v): the one possible victim; None: ambiguous
-        let victim: Option<u32> = match cfg.policy {
-            Pol::Fifo | Pol::Lru if exact => self.order.first().copied(),
-            Pol::Lfu if exact => {
-                if sync {
-                    // the new key (0 hits) is a candidate: unambiguous only if no resident ties with it
-                    if self.sure.iter().any(|x| hits_of(self, x) == 0) {
-                        None
-                    } else {
-                        Some(k)
-                    }
-                } else {
-                    let min = self.sure.iter().map(|x| hits_of(self, x)).min().unwrap_or(0);
-                    let ties: Vec<u32> = self.sure.iter().copied().filter(|x| hits_of(self, x) == min).collect();
-                    if ties.len() == 1 {
-                        Some(ties[0])
-                    } else {
-                        None
-                    }
-                }
-            }
-            _ => None,
+/// Judges the value of one call (both passes): an execution returns the function's value (C01), a served call returns
+/// what the LAST execution for that key returned (C11 if the key had been refreshed, C01 otherwise).
+fn judge_value(cfg: &Cfg, vals: &mut Vals, k: u32, ran: u64, value: u64, runs_after: u64, out: &mut Vec<Breach>) {
+    if ran >= 1 {
+        let fresh = match cfg.family {
+            Family::Restore => k as u64 * 1000 + runs_after,
+            _ => twin(k),
         };
-        match victim {
-            Some(v) if v == k => {}
-            Some(v) => {
-                self.forget(v);
-                self.add(k);
-            }
-            None => {
-                let new_key_is_candidate = sync && !matches!(cfg.policy, Pol::Fifo | Pol::Lru);
-                // which residents can be the victim: under LFU with known hit counts only the ties at the minimum
-                let candidates: BTreeSet<u32> = if exact && cfg.policy == Pol::Lfu {
-                    let min = if sync { 0 } else { self.sure.iter().map(|x| hits_of(self, x)).min().unwrap_or(0) };
-                    self.sure.iter().copied().filter(|x| hits_of(self, x) == min).collect()
-                } else {
-                    self.maybe.clone()
-                };
-                for c in &candidates {
-                    self.sure.remove(c);
-                }
-                self.maybe.insert(k);
-                if !new_key_is_candidate {
-                    self.sure.insert(k);
-                }
-                self.meta = false;
-                self.order.clear();
-                self.hits.clear();
-                self.sharpen();
-            }
+        if value != fresh {
+            out.push(Breach { prop: "C01", what: format!("the body ran and the call returned {value}, the function's value is {fresh}") });
         }
-    }
-    fn hit(&mut self, pol: Pol, k: u32) {
-        if !self.meta {
-            return;
+        vals.val.insert(k, fresh);
+        if vals.stale && cfg.family == Family::Restore {
+            vals.refreshed.insert(k);
+        } else {
+            vals.refreshed.remove(&k);
         }
-        if matches!(pol, Pol::Lru | Pol::Arc | Pol::Tlru) {
-            self.order.retain(|x| *x != k);
-            self.order.push(k);
-        }
-        if matches!(pol, Pol::Lfu | Pol::Arc | Pol::Tlru) {
-            *self.hits.entry(k).or_insert(0) += 1;
+    } else {
+        let want = vals.val.get(&k).copied().unwrap_or_else(|| twin(k));
+        if value != want {
+            let (prop, why) = if vals.refreshed.contains(&k) {
+                ("C11", "the value of the last refresh")
+            } else {
+                ("C01", "what the last execution for this key returned")
+            };
+            out.push(Breach { prop, what: format!("key {k} was served {value}, expected {want} ({why})") });
         }
     }
 }
 
 /// The property a wrong CONTENT of the right size is attributed to: only a wrong victim explains it.
-fn victim_prop(pol: Pol) -> &'static str {
-    match pol {
+fn victim_prop(cfg: &Cfg) -> &'static str {
+    match cfg.policy {
         Pol::Fifo | Pol::Lru => "C07",
         Pol::Lfu | Pol::Arc | Pol::Tlru => "C08",
-        Pol::Random => "C04",
+        Pol::Random => cfg.cap_prop(),
     }
 }
 
-/// An observation point of the sparse pass: `obs` are the resident keys, `when` says where they were seen.
-fn judge_observation(cfg: &Cfg, m: &Sparse, obs: &BTreeSet<String>, when: &str, out: &mut Vec<Breach>) {
-    let limit = cfg.limit;
-    if obs.len() > limit {
-        out.push(Breach { prop: "C04", what: format!("{when}: {} keys {obs:?}, limit {limit}", obs.len()) });
+/// Bounds that hold at every observation: entry limit (C04), byte bound and no oversized value (C05).
+fn judge_bounds(cfg: &Cfg, obs: &BTreeSet<String>, when: &str, out: &mut Vec<Breach>) {
+    if obs.len() > cfg.lim() {
+        out.push(Breach { prop: "C04", what: format!("{when}: {} keys {obs:?}, limit {}", obs.len(), cfg.lim()) });
     }
-    let Some(n) = m.n else { return };
-    if obs.len() != n {
-        out.push(Breach {
-            prop: "C04",
-            what: format!(
-                "{when}: {} keys {obs:?}, expected {n} = min(limit {limit}, what the stores since the last observation add up to); modelled: {}",
-                obs.len(),
-                m.describe()
-            ),
-        });
-    }
-    let missing: Vec<u32> = m.sure.iter().copied().filter(|k| !obs.contains(&k.to_string())).collect();
-    if !missing.is_empty() {
-        let prop = if obs.len() == n { victim_prop(cfg.policy) } else { "C04" };
-        out.push(Breach { prop, what: format!("{when}: keys {obs:?}: {missing:?} must be resident and are not; modelled: {}", m.describe()) });
-    }
-    for key in obs {
-        let k = key.parse::<u32>().ok();
-        if k.map_or(true, |k| !m.maybe.contains(&k)) {
-            let prop = match k.and_then(|k| m.gone.get(&k)) {
-                Some(p) => *p,
-                None if obs.len() == n => victim_prop(cfg.policy),
-                None => "C04",
-            };
-            let why = if k.map_or(false, |k| m.gone.contains_key(&k)) { "it was invalidated and has not been stored since" } else { "it cannot be resident" };
-            out.push(Breach { prop, what: format!("{when}: keys {obs:?}: {key:?} is listed, {why}; modelled: {}", m.describe()) });
+    if let Some(m) = cfg.max_memory {
+        let keys = parse_keys(obs);
+        let bytes = cfg.bytes(&keys);
+        if bytes > m {
+            let sizes: Vec<(u32, usize)> = keys.iter().map(|k| (*k, cfg.size(*k))).collect();
+            out.push(Breach { prop: "C05", what: format!("{when}: the cached values take {bytes} bytes (key, size: {sizes:?}), max_memory is {m}") });
+        }
+        for k in keys {
+            if cfg.too_large(k) {
+                out.push(Breach { prop: "C05", what: format!("{when}: key {k} is cached, its value alone takes {} bytes, max_memory is {m}", cfg.size(k)) });
+            }
         }
     }
-}
-
-fn parse_keys(obs: &BTreeSet<String>) -> BTreeSet<u32> {
-    obs.iter().filter_map(|s| s.parse::<u32>().ok()).collect()
 }
 
 /// The C13 twins of capacity / victim breaches (see `step`). Dense pass: per kind of breach (the control must not have
@@ -917,7 +986,7 @@ fn add_twins(dirty: bool, control_failed: &BTreeSet<&'static str>, strict: bool,
     }
     let twins: Vec<Breach> = out
         .iter()
-        .filter(|b| matches!(b.prop, "C04" | "C07" | "C08") && !control_failed.contains(b.prop))
+        .filter(|b| is_capacity_prop(b.prop) && !control_failed.contains(b.prop))
         .map(|b| Breach {
             prop: "C13",
             what: format!("{} [entries of this cache were invalidated earlier: limits and eviction order must behave as if they had never been stored]", b.what),
@@ -925,25 +994,20 @@ fn add_twins(dirty: bool, control_failed: &BTreeSet<&'static str>, strict: bool,
         .collect();
     out.extend(twins);
 }
+fn is_capacity_prop(p: &str) -> bool {
+    matches!(p, "C04" | "C05" | "C07" | "C08")
+}
 
-/// One operation of the sparse pass: no key listing. Calls are judged by the run counter against the model, the
-/// history's own conditional invalidations see the resident keys through their predicate.
-fn sparse_step(cfg: &Cfg, ctx: &Ctx, st: &mut State, op: Op) -> Vec<Breach> {
-    if !st.used && !matches!(op, Op::Call(_)) {
-        return Vec::new();
-    }
-    let State { sparse: m, used, dirty, control_failed, .. } = st;
-    if !*used {
-        *used = true;
-        WARMED.fetch_add(1, Ordering::Relaxed);
-    }
-    OPS.fetch_add(1, Ordering::Relaxed);
-    let mut out: Vec<Breach> = Vec::new();
+/// Runs one operation (not `SetStale`) on the real cache. `record`: the conditional invalidations report every key
+/// their predicate is asked about. Returns (value of a call, answer of an invalidation) or the panic text.
+fn execute(cfg: &Cfg, op: Op, asked: Option<&Mutex<Vec<String>>>) -> Result<(u64, usize), String> {
     let name = cfg.name;
-    let before = instr::runs(name);
-    let asked: Mutex<Vec<String>> = Mutex::new(Vec::new());
-    let record = |key: &str| asked.lock().unwrap_or_else(|e| e.into_inner()).push(key.to_string());
-    let done = catch_unwind(AssertUnwindSafe(|| match op {
+    let record = |key: &str| {
+        if let Some(a) = asked {
+            a.lock().unwrap_or_else(|e| e.into_inner()).push(key.to_string());
+        }
+    };
+    catch_unwind(AssertUnwindSafe(|| match op {
         Op::Call(k) => ((cfg.call)(k), 0usize),
         Op::With(mask) => (
             0,
@@ -963,12 +1027,548 @@ fn sparse_step(cfg: &Cfg, ctx: &Ctx, st: &mut State, op: Op) -> Vec<Breach> {
             }),
         ),
         Op::Cache => (0, cachelito_core::invalidate_cache(name) as usize),
-    }));
-    let ran = instr::runs(name) - before;
+        Op::ByTag => (0, cachelito_core::invalidate_by_tag(cfg.tag)),
+        Op::Stale(_) => (0, 0),
+    }))
+    .map_err(|p| panic_text(p.as_ref()))
+}
+
+// ------------------------------------------------------------------------------------------------
+// the dense step oracle
+// ------------------------------------------------------------------------------------------------
+/// Runs one operation on the real cache, lists the keys, and judges. Returns every clause that failed (in order of
+/// importance); the model is advanced when nothing failed and re-synchronised otherwise.
+///
+/// Attribution of capacity and victim breaches (C04 / C05 / C07 / C08) on a store: once an invalidation has removed an
+/// entry of this cache (`dirty`), such a breach is ALSO a breach of C13 ("after any invalidation, limits, eviction
+/// order and memory totals behave as if the removed entries had never been stored") and is reported under both, so that
+/// `--prop C13` sees the damage an invalidation callback did to the queue (it only shows at a later store). Not,
+/// however, if the same kind of breach already showed in the CONTROL history of this cache (no invalidation before or
+/// during it: then the engine is at fault, not the invalidation).
+fn step(cfg: &Cfg, ctx: &Ctx, st: &mut State, op: Op) -> Vec<Breach> {
+    let State { model: m, vals, dirty, control_failed, .. } = st;
+    let mut out: Vec<Breach> = Vec::new();
+    let name = cfg.name;
+    let before = instr::runs(name);
+    let done = execute(cfg, op, None);
+    let runs_after = instr::runs(name);
+    let ran = runs_after - before;
     let (value, answer) = match done {
         Ok(x) => x,
+        Err(msg) => {
+            let prop = if msg.starts_with("harness:") { "HARNESS" } else { "C16" };
+            out.push(Breach { prop, what: format!("the operation panicked: {msg}") });
+            (0, 0)
+        }
+    };
+    let panicked = !out.is_empty();
+    let obs = match catch_unwind(AssertUnwindSafe(|| observe(cfg))) {
+        Ok(Ok(o)) => o,
+        Ok(Err(b)) => {
+            out.push(b);
+            m.resync(&BTreeSet::new());
+            return out;
+        }
         Err(p) => {
-            let msg = panic_text(p.as_ref());
+            out.push(Breach { prop: "C16", what: format!("listing the keys after the operation panicked: {}", panic_text(p.as_ref())) });
+            m.resync(&BTreeSet::new());
+            return out;
+        }
+    };
+    let held = strs(&m.k);
+
+    if !panicked {
+        match op {
+            Op::Call(k) => {
+                let resident = m.k.contains(&k);
+                let refresh = resident && vals.stale && cfg.family == Family::Restore;
+                let want_runs: u64 = if resident && !refresh && !ctx.selftest { 0 } else { 1 };
+                if ran != want_runs {
+                    let (prop, why) = if refresh {
+                        ("C11", "resident, and invalidate_on says stale")
+                    } else if resident {
+                        ("C03", "resident")
+                    } else if cfg.too_large(k) {
+                        ("C05", "never cached: its value alone exceeds max_memory")
+                    } else {
+                        ("C03", "not resident")
+                    };
+                    out.push(Breach { prop, what: format!("key {k} is {why} (keys {held:?}): the body ran {ran} times, expected {want_runs}") });
+                }
+                judge_value(cfg, vals, k, ran, value, runs_after, &mut out);
+                if resident {
+                    if obs != held {
+                        let what = if ran >= 1 { "a re-store of the cached key" } else { "a hit on" };
+                        out.push(Breach { prop: "C04", what: format!("{what} {k} changed the resident keys: {obs:?}, expected {held:?}") });
+                    }
+                    m.hit(cfg.policy, k);
+                    if ran >= 1 {
+                        // stored again while cached: newest in the queue, 0 hits (both flavours, every policy)
+                        let exact = m.exact;
+                        m.store(k);
+                        m.exact = exact;
+                    }
+                } else {
+                    judge_store(cfg, m, k, &obs, &mut out);
+                }
+                add_twins(*dirty, control_failed, false, &mut out);
+            }
+            Op::With(mask) | Op::AllWith(mask) => {
+                let what = match op {
+                    Op::With(_) => "invalidate_with",
+                    _ => "invalidate_all_with",
+                };
+                let floor = match op {
+                    Op::With(_) => 1,
+                    _ => WARMED.load(Ordering::Relaxed),
+                };
+                if answer < floor {
+                    let want = if floor == 1 { "true".to_string() } else { format!("at least {floor}") };
+                    out.push(Breach { prop: "C13", what: format!("{what} answered {answer}, expected {want} ({floor} caches have been used)") });
+                }
+                let want: BTreeSet<u32> = m.k.iter().copied().filter(|k| mask & (1 << k) == 0).collect();
+                let want_s = strs(&want);
+                if want.len() < m.k.len() {
+                    *dirty = true;
+                }
+                if obs != want_s {
+                    out.push(Breach { prop: "C13", what: format!("{what}(key in {:?}) on {held:?}: keys {obs:?}, expected {want_s:?}", mask_keys(mask)) });
+                } else {
+                    for k in mask_keys(mask) {
+                        m.drop_key(k);
+                    }
+                }
+            }
+            Op::Cache | Op::ByTag => {
+                let what = if op == Op::Cache { format!("invalidate_cache({name:?})") } else { format!("invalidate_by_tag({:?})", cfg.tag) };
+                if answer != 1 {
+                    let got = if op == Op::Cache { (answer == 1).to_string() } else { answer.to_string() };
+                    let want = if op == Op::Cache { "true" } else { "1" };
+                    out.push(Breach { prop: "C12", what: format!("{what} answered {got}, expected {want}: the cache declares the tag and has been used") });
+                }
+                if !m.k.is_empty() {
+                    *dirty = true;
+                }
+                if !obs.is_empty() {
+                    let refreshed: Vec<u32> = parse_keys(&obs).into_iter().filter(|k| vals.refreshed.contains(k)).collect();
+                    out.push(Breach {
+                        prop: "C12",
+                        what: format!("{what} on {held:?}: keys {obs:?} are still cached, expected none (of these, refreshed while cached: {refreshed:?})"),
+                    });
+                } else {
+                    *m = Model::empty();
+                }
+            }
+            Op::Stale(_) => {}
+        }
+    }
+    judge_bounds(cfg, &obs, "after the operation", &mut out);
+    if !out.is_empty() {
+        m.resync(&obs);
+    } else if m.k.is_empty() {
+        m.exact = true;
+    }
+    out
+}
+
+/// A miss on `k` (not resident in the model) ran the body and the wrapper stored the result: `obs` is what the cache
+/// lists afterwards.
+fn judge_store(cfg: &Cfg, m: &mut Model, k: u32, obs: &BTreeSet<String>, out: &mut Vec<Breach>) {
+    let held = strs(&m.k);
+    let cap = cfg.cap_prop();
+    let (limit, mm) = (cfg.lim(), cfg.mem());
+    if cfg.too_large(k) {
+        if *obs != held {
+            out.push(Breach {
+                prop: "C05",
+                what: format!(
+                    "the value of key {k} alone takes {} bytes (max_memory {mm}): it must not be cached and must displace nothing: keys {obs:?}, expected {held:?}",
+                    cfg.size(k)
+                ),
+            });
+        }
+        return;
+    }
+    let mut plus = m.k.clone();
+    plus.insert(k);
+    let plus_s = strs(&plus);
+    let foreign: Vec<&String> = obs.difference(&plus_s).collect();
+    if !foreign.is_empty() {
+        out.push(Breach { prop: "C04", what: format!("store of {k} into {held:?}: keys {obs:?}: {foreign:?} come from nowhere") });
+        return;
+    }
+    let obs_k = parse_keys(obs);
+    let victims: Vec<u32> = plus.difference(&obs_k).copied().collect();
+    let sizes = |keys: &BTreeSet<u32>| -> String {
+        if cfg.max_memory.is_some() {
+            format!(" ({} of {mm} bytes)", cfg.bytes(keys))
+        } else {
+            String::new()
+        }
+    };
+    let fits = plus.len() <= limit && cfg.bytes(&plus) <= mm;
+    let before = out.len();
+    if fits {
+        if !victims.is_empty() {
+            out.push(Breach {
+                prop: cap,
+                what: format!(
+                    "store of {k} into {held:?}: everything fits ({} keys, limit {}{}), nothing to evict: keys {obs:?}, {victims:?} are gone",
+                    plus.len(),
+                    cfg.limit_text(),
+                    sizes(&plus)
+                ),
+            });
+        }
+    } else if victims.is_empty() {
+        // the bounds check reports it (over the limit / over max_memory)
+    } else {
+        // eviction stops as soon as everything fits: the last victim, whichever it was, was needed
+        let needed = victims.iter().any(|v| cfg.bytes(&obs_k).saturating_add(cfg.size(*v)) > mm || obs_k.len() + 1 > limit);
+        if !needed {
+            out.push(Breach {
+                prop: cap,
+                what: format!(
+                    "store of {k} into the full cache {held:?} (limit {}{}): keys {obs:?}{}: {victims:?} were evicted, more than needed (expected {plus_s:?} minus just enough victims)",
+                    cfg.limit_text(),
+                    sizes(&plus),
+                    sizes(&obs_k)
+                ),
+            });
+        }
+    }
+    if out.len() == before && obs_k.len() <= limit && cfg.bytes(&obs_k) <= mm {
+        judge_victims(cfg, m, k, &victims, &obs_k, out);
+        m.store(k);
+        for v in &victims {
+            m.drop_key(*v);
+        }
+    }
+}
+
+/// `victims` were evicted by the store of `k`, `survivors` are resident afterwards.
+fn judge_victims(cfg: &Cfg, m: &Model, k: u32, victims: &[u32], survivors: &BTreeSet<u32>, out: &mut Vec<Breach>) {
+    if victims.is_empty() {
+        return;
+    }
+    let held = strs(&m.k);
+    let hits = |x: &u32| m.hits.get(x).copied().unwrap_or(0);
+    let pol = cfg.policy.name();
+    let own = victims.contains(&k);
+    if cfg.flavour == Flavour::Async && own {
+        out.push(Breach {
+            prop: victim_prop(cfg),
+            what: format!("{pol} (async): the store of {k} into {held:?} evicted the new key itself; the victims are chosen among the resident keys before the new key is queued"),
+        });
+        return;
+    }
+    match cfg.policy {
+        Pol::Fifo | Pol::Lru => {
+            let rule = if cfg.policy == Pol::Fifo { "oldest store first" } else { "least recently used first" };
+            if own {
+                out.push(Breach { prop: "C07", what: format!("{pol}: the store of {k} into {held:?} evicted the new key itself") });
+            } else if m.exact {
+                let want = fifo_victims(cfg, &m.order, k);
+                let want_set: BTreeSet<u32> = want.iter().copied().collect();
+                let got_set: BTreeSet<u32> = victims.iter().copied().collect();
+                if want_set != got_set {
+                    out.push(Breach { prop: "C07", what: format!("{pol}: the store of {k} evicted {victims:?}, expected {want:?} ({rule}; order: {:?})", m.order) });
+                }
+            }
+        }
+        Pol::Lfu => {
+            if !m.exact {
+                return;
+            }
+            // every victim was a minimum among what was left: no survivor has fewer hits than a victim. sync: the new
+            // key (0 hits) is a candidate as well
+            for v in victims {
+                let hv = if *v == k { 0 } else { hits(v) };
+                for s in survivors {
+                    if *s == k && cfg.flavour == Flavour::Async {
+                        continue;
+                    }
+                    let hs = if *s == k { 0 } else { hits(s) };
+                    if hv > hs {
+                        out.push(Breach {
+                            prop: "C08",
+                            what: format!(
+                                "LFU ({}): the store of {k} evicted {v} with {hv} hits and kept {s} with {hs} hits (hits {:?}; the new key has 0 and {})",
+                                cfg.flavour.name(),
+                                m.hits,
+                                if cfg.flavour == Flavour::Async { "is no candidate" } else { "is a candidate" }
+                            ),
+                        });
+                        return;
+                    }
+                }
+            }
+        }
+        // ARC / TLRU / Random: any victims (sync: the new key included)
+        Pol::Arc | Pol::Tlru | Pol::Random => {}
+    }
+}
+
+// ------------------------------------------------------------------------------------------------
+// the sparse pass: model and oracle
+// ------------------------------------------------------------------------------------------------
+/// What is known about the resident keys BETWEEN two observations. Driven by the run counter alone: a call that ran the
+/// body was a miss (or, family R while stale, a refresh), one that did not was a hit.
+///
+/// * `n = (lo, hi)`: bounds on the number of resident keys. Entry limit only: exact (`lo == hi`): a miss on a cache that
+///   is not full adds one, a miss on a full cache leaves `limit` (C04: "the cache holds min(N, number of distinct keys
+///   stored) entries"). With max_memory a store may evict several keys: only `hi = min(limit, hi + 1)` and
+///   `lo = |sure|` are kept unless the victims are known exactly. Observations re-establish `lo == hi`.
+/// * `sure` (certainly resident) and `maybe` (possibly resident), `sure <= resident <= maybe`. They coincide (the set
+///   is exact) as long as every victim was unambiguous: FIFO / LRU with a known queue order (also under max_memory:
+///   `fifo_victims`), LFU (entry limit only) with a unique minimum (sync: no resident with 0 hits => the NEW key is the
+///   victim). When the victims are ambiguous (LFU ties, ARC, TLRU, Random, max_memory under those, or a queue order
+///   that is not known any more) every candidate leaves `sure`; the candidates are the residents, in the sync flavour
+///   under LFU / ARC / TLRU / Random also the new key (it is stored before the victims are chosen), in the async
+///   flavour never: there the key just stored is certainly resident. A store that certainly fits next to everything
+///   that is possibly resident (`hi + 1 <= limit` and the bytes of `maybe` plus the new value `<= M`) evicts nothing.
+/// * every hit / miss on a key of `maybe - sure` is information and sharpens the sets (not while family R is stale:
+///   then a refresh and a miss look the same).
+#[derive(Clone, Debug, Default)]
+struct Sparse {
+    /// None: unknown after a call the model could not explain (a breach has been reported); until the next observation
+    n: Option<(usize, usize)>,
+    sure: BTreeSet<u32>,
+    maybe: BTreeSet<u32>,
+    /// `order` / `hits` describe the resident keys exactly (implies `sure == maybe`): true from an empty cache on for
+    /// as long as nothing ambiguous happens
+    meta: bool,
+    order: Vec<u32>,
+    hits: BTreeMap<u32, u64>,
+    /// keys removed by an invalidation and not stored since, with the property their resurrection is attributed to
+    gone: BTreeMap<u32, &'static str>,
+}
+impl Sparse {
+    fn empty() -> Sparse {
+        Sparse { n: Some((0, 0)), meta: true, ..Sparse::default() }
+    }
+    fn lose(&mut self) {
+        self.n = None;
+        self.meta = false;
+        self.sure.clear();
+        self.maybe = (0..WIDE_ALPHABET).collect();
+        self.order.clear();
+        self.hits.clear();
+    }
+    /// The set that was just observed (or adopted after a breach).
+    fn adopt(&mut self, set: &BTreeSet<u32>, keep_meta: bool) {
+        self.n = Some((set.len(), set.len()));
+        self.sure = set.clone();
+        self.maybe = set.clone();
+        if keep_meta && self.meta {
+            self.order.retain(|k| set.contains(k));
+            self.hits.retain(|k, _| set.contains(k));
+        } else {
+            self.meta = set.is_empty();
+            self.order.clear();
+            self.hits.clear();
+        }
+    }
+    /// Tightens bounds and sets against each other. `false`: they contradict each other.
+    fn sharpen(&mut self) -> bool {
+        let Some((lo, hi)) = self.n else { return true };
+        let lo = lo.max(self.sure.len());
+        let hi = hi.min(self.maybe.len());
+        if lo > hi {
+            return false;
+        }
+        if self.sure.len() == hi {
+            self.maybe = self.sure.clone();
+        } else if self.maybe.len() == lo {
+            self.sure = self.maybe.clone();
+        }
+        self.n = Some((lo, hi));
+        true
+    }
+    fn is_exact(&self) -> bool {
+        self.n.is_some() && self.sure == self.maybe
+    }
+    fn describe(&self) -> String {
+        match self.n {
+            Some(_) if self.sure == self.maybe => format!("exactly {:?}", self.sure),
+            Some((lo, hi)) if lo == hi => format!("{lo} keys, certainly {:?}, possibly {:?}", self.sure, self.maybe),
+            Some((lo, hi)) => format!("{lo} to {hi} keys, certainly {:?}, possibly {:?}", self.sure, self.maybe),
+            None => "unknown".to_string(),
+        }
+    }
+    fn forget(&mut self, k: u32) {
+        self.sure.remove(&k);
+        self.maybe.remove(&k);
+        self.order.retain(|x| *x != k);
+        self.hits.remove(&k);
+    }
+    /// `k` is resident now, as the newest store with 0 hits (also the effect of a re-store of a resident key).
+    fn add(&mut self, k: u32) {
+        self.sure.insert(k);
+        self.maybe.insert(k);
+        if self.meta {
+            self.order.retain(|x| *x != k);
+            self.order.push(k);
+            self.hits.insert(k, 0);
+        }
+    }
+    fn blur(&mut self) {
+        self.meta = false;
+        self.order.clear();
+        self.hits.clear();
+    }
+    /// A miss on `k` (known not to be resident) stored it.
+    fn store(&mut self, cfg: &Cfg, k: u32) {
+        self.gone.remove(&k);
+        if cfg.too_large(k) {
+            return;
+        }
+        let Some((lo, hi)) = self.n else { return };
+        let (limit, mm) = (cfg.lim(), cfg.mem());
+        let sync = cfg.flavour == Flavour::Global;
+        // nothing can be evicted
+        if hi + 1 <= limit && cfg.bytes(&self.maybe).saturating_add(cfg.size(k)) <= mm {
+            self.n = Some((lo + 1, hi + 1));
+            self.add(k);
+            return;
+        }
+        let exact = self.is_exact() && self.meta;
+        let hits_of = |m: &Sparse, x: &u32| m.hits.get(x).copied().unwrap_or(0);
+        if exact {
+            // Some(victims): the only possible outcome
+            let victims: Option<Vec<u32>> = match cfg.policy {
+                Pol::Fifo | Pol::Lru => Some(fifo_victims(cfg, &self.order, k)),
+                Pol::Lfu if cfg.max_memory.is_none() => {
+                    if sync {
+                        // the new key (0 hits) is a candidate: unambiguous only if no resident ties with it
+                        if self.sure.iter().any(|x| hits_of(self, x) == 0) {
+                            None
+                        } else {
+                            Some(vec![k])
+                        }
+                    } else {
+                        let min = self.sure.iter().map(|x| hits_of(self, x)).min().unwrap_or(0);
+                        let ties: Vec<u32> = self.sure.iter().copied().filter(|x| hits_of(self, x) == min).collect();
+                        if ties.len() == 1 {
+                            Some(ties)
+                        } else {
+                            None
+                        }
+                    }
+                }
+                _ => None,
+            };
+            if let Some(vs) = victims {
+                if vs != [k] {
+                    for v in vs {
+                        self.forget(v);
+                    }
+                    self.add(k);
+                }
+                self.n = Some((self.sure.len(), self.sure.len()));
+                return;
+            }
+        }
+        let new_key_is_candidate = sync && !matches!(cfg.policy, Pol::Fifo | Pol::Lru);
+        // which residents can be victims: under LFU with known hit counts (entry limit only) the ties at the minimum
+        let candidates: BTreeSet<u32> = if exact && cfg.policy == Pol::Lfu && cfg.max_memory.is_none() {
+            let min = if sync { 0 } else { self.sure.iter().map(|x| hits_of(self, x)).min().unwrap_or(0) };
+            self.sure.iter().copied().filter(|x| hits_of(self, x) == min).collect()
+        } else {
+            self.maybe.clone()
+        };
+        for c in &candidates {
+            self.sure.remove(c);
+        }
+        self.maybe.insert(k);
+        if !new_key_is_candidate {
+            self.sure.insert(k);
+        }
+        self.blur();
+        let new_lo = if cfg.max_memory.is_none() { limit.min(lo + 1) } else { 0 };
+        self.n = Some((new_lo, limit.min(hi + 1)));
+        self.sharpen();
+    }
+    /// Family R while stale, `k` possibly but not certainly resident, the body ran: either the cached entry was
+    /// refreshed (nothing else changes) or `k` was not resident and has been stored (with whatever that evicts).
+    fn refresh_or_store(&mut self, cfg: &Cfg, k: u32) {
+        self.gone.remove(&k);
+        let Some((lo, hi)) = self.n else { return };
+        let limit = cfg.lim();
+        let sync = cfg.flavour == Flavour::Global;
+        let may_evict = hi + 1 > limit;
+        if may_evict {
+            self.sure.clear();
+        }
+        self.maybe.insert(k);
+        if !(may_evict && sync && !matches!(cfg.policy, Pol::Fifo | Pol::Lru)) {
+            self.sure.insert(k);
+        }
+        self.blur();
+        self.n = Some((lo, limit.min(hi + 1)));
+        self.sharpen();
+    }
+    fn hit(&mut self, pol: Pol, k: u32) {
+        if !self.meta {
+            return;
+        }
+        if matches!(pol, Pol::Lru | Pol::Arc | Pol::Tlru) {
+            self.order.retain(|x| *x != k);
+            self.order.push(k);
+        }
+        if matches!(pol, Pol::Lfu | Pol::Arc | Pol::Tlru) {
+            *self.hits.entry(k).or_insert(0) += 1;
+        }
+    }
+}
+
+/// An observation point of the sparse pass: `obs` are the resident keys, `when` says where they were seen.
+fn judge_observation(cfg: &Cfg, m: &Sparse, obs: &BTreeSet<String>, when: &str, out: &mut Vec<Breach>) {
+    judge_bounds(cfg, obs, when, out);
+    let Some((lo, hi)) = m.n else { return };
+    let size_ok = obs.len() >= lo && obs.len() <= hi;
+    if !size_ok {
+        let want = if lo == hi { format!("{lo}") } else { format!("{lo} to {hi}") };
+        out.push(Breach {
+            prop: "C04",
+            what: format!(
+                "{when}: {} keys {obs:?}, expected {want} (limit {}: what the stores since the last observation add up to); modelled: {}",
+                obs.len(),
+                cfg.limit_text(),
+                m.describe()
+            ),
+        });
+    }
+    let content_prop = if size_ok && lo == hi && cfg.max_memory.is_none() { victim_prop(cfg) } else { cfg.cap_prop() };
+    let missing: Vec<u32> = m.sure.iter().copied().filter(|k| !obs.contains(&k.to_string())).collect();
+    if !missing.is_empty() {
+        out.push(Breach { prop: content_prop, what: format!("{when}: keys {obs:?}: {missing:?} must be resident and are not; modelled: {}", m.describe()) });
+    }
+    for key in obs {
+        let k = key.parse::<u32>().ok();
+        if k.map_or(true, |k| !m.maybe.contains(&k)) {
+            let invalidated = k.and_then(|k| m.gone.get(&k)).copied();
+            let prop = invalidated.unwrap_or(if cfg.max_memory.is_none() && size_ok { content_prop } else { "C04" });
+            let why = if invalidated.is_some() { "it was invalidated and has not been stored since" } else { "it cannot be resident" };
+            out.push(Breach { prop, what: format!("{when}: keys {obs:?}: {key:?} is listed, {why}; modelled: {}", m.describe()) });
+        }
+    }
+}
+
+/// One operation of the sparse pass: no key listing. Calls are judged by the run counter against the model, the
+/// history's own conditional invalidations see the resident keys through their predicate.
+fn sparse_step(cfg: &Cfg, ctx: &Ctx, st: &mut State, op: Op) -> Vec<Breach> {
+    let State { sparse: m, vals, dirty, control_failed, .. } = st;
+    let mut out: Vec<Breach> = Vec::new();
+    let name = cfg.name;
+    let before = instr::runs(name);
+    let asked: Mutex<Vec<String>> = Mutex::new(Vec::new());
+    let done = execute(cfg, op, Some(&asked));
+    let runs_after = instr::runs(name);
+    let ran = runs_after - before;
+    let (value, answer) = match done {
+        Ok(x) => x,
+        Err(msg) => {
             let prop = if msg.starts_with("harness:") { "HARNESS" } else { "C16" };
             out.push(Breach { prop, what: format!("the operation panicked: {msg}") });
             m.lose();
@@ -977,76 +1577,95 @@ fn sparse_step(cfg: &Cfg, ctx: &Ctx, st: &mut State, op: Op) -> Vec<Breach> {
     };
     match op {
         Op::Call(k) => {
-            if value != twin(k) {
-                out.push(Breach { prop: "C01", what: format!("returned {value}, the uncached twin gives {}", twin(k)) });
-            }
+            judge_value(cfg, vals, k, ran, value, runs_after, &mut out);
             if ran > 1 {
                 out.push(Breach { prop: "C03", what: format!("the body ran {ran} times for one call") });
             }
             let hit = ran == 0;
+            let stale = vals.stale && cfg.family == Family::Restore;
             let known = m.n.is_some();
-            let want_runs_on_hit: u64 = if ctx.selftest { 1 } else { 0 };
-            if known && m.sure.contains(&k) {
-                if ran != want_runs_on_hit {
-                    let what = format!("key {k} must be resident (modelled: {}): the body ran {ran} times, expected {want_runs_on_hit}", m.describe());
-                    out.push(Breach { prop: "C03", what: what.clone() });
-                    if !ctx.selftest {
-                        // the entry vanished although no store since the last observation can have evicted it
-                        out.push(Breach { prop: "C04", what: format!("{what} (an entry was removed that no overflow accounts for)") });
-                        if cfg.policy != Pol::Random {
-                            out.push(Breach { prop: victim_prop(cfg.policy), what: format!("{what} (a wrong victim was evicted)") });
+            if !known {
+                if !hit {
+                    m.gone.remove(&k);
+                }
+            } else if m.sure.contains(&k) {
+                let want_runs: u64 = if stale || ctx.selftest { 1 } else { 0 };
+                if ran != want_runs {
+                    let what = format!("key {k} must be resident (modelled: {}): the body ran {ran} times, expected {want_runs}", m.describe());
+                    if stale {
+                        out.push(Breach { prop: "C11", what: format!("{what}: invalidate_on says stale, the entry must be refreshed, not served") });
+                    } else {
+                        out.push(Breach { prop: "C03", what: what.clone() });
+                        if !ctx.selftest {
+                            // the entry vanished although no store since the last observation can have evicted it
+                            out.push(Breach { prop: cfg.cap_prop(), what: format!("{what} (an entry was removed that no overflow accounts for)") });
+                            if cfg.policy != Pol::Random && cfg.max_memory.is_none() {
+                                out.push(Breach { prop: victim_prop(cfg), what: format!("{what} (a wrong victim was evicted)") });
+                            }
                         }
                     }
                     m.lose();
                 } else {
                     m.hit(cfg.policy, k);
+                    if ran >= 1 {
+                        // refreshed while cached: newest store, 0 hits, nothing else changes
+                        m.add(k);
+                    }
                 }
-            } else if known && !m.maybe.contains(&k) {
+            } else if !m.maybe.contains(&k) {
                 if hit {
                     let what = format!("key {k} cannot be resident (modelled: {}): the call was served without running the body", m.describe());
-                    match m.gone.get(&k) {
-                        Some(p) => out.push(Breach { prop: *p, what: format!("{what}; the key was invalidated and has not been stored since") }),
-                        None => {
-                            out.push(Breach { prop: "C04", what: format!("{what} (an entry that an overflow must have evicted is still there)") });
-                            if cfg.policy != Pol::Random {
-                                out.push(Breach { prop: victim_prop(cfg.policy), what: format!("{what} (a wrong victim was evicted)") });
-                            }
+                    if let Some(p) = m.gone.get(&k) {
+                        out.push(Breach { prop: *p, what: format!("{what}; the key was invalidated and has not been stored since") });
+                    } else if cfg.too_large(k) {
+                        out.push(Breach { prop: "C05", what: format!("{what}; its value alone exceeds max_memory and must never be cached") });
+                    } else {
+                        out.push(Breach { prop: "C04", what: format!("{what} (an entry that an overflow must have evicted is still there)") });
+                        if cfg.policy != Pol::Random && cfg.max_memory.is_none() {
+                            out.push(Breach { prop: victim_prop(cfg), what: format!("{what} (a wrong victim was evicted)") });
                         }
                     }
                     m.lose();
                 } else {
                     m.store(cfg, k);
                 }
-            } else if known {
+            } else if stale {
+                if hit {
+                    out.push(Breach {
+                        prop: "C11",
+                        what: format!("key {k} (modelled: {}): invalidate_on says stale, so the body had to run whether or not the key was cached; it did not", m.describe()),
+                    });
+                    m.lose();
+                } else {
+                    m.refresh_or_store(cfg, k);
+                }
+            } else {
                 // information: the key was / was not resident
                 if hit {
                     m.sure.insert(k);
                 } else {
                     m.maybe.remove(&k);
                 }
-                let n = m.n.unwrap_or(0);
-                if m.sure.len() > n || m.maybe.len() < n {
+                if !m.sharpen() {
+                    let (lo, hi) = m.n.unwrap_or((0, 0));
                     out.push(Breach {
                         prop: "C04",
                         what: format!(
-                            "the {} on key {k} shows {} resident keys, the stores since the last observation add up to {n} (limit {}); modelled: {}",
+                            "the {} on key {k} shows {} resident keys, the stores since the last observation add up to {} (limit {}); certainly {:?}, possibly {:?}",
                             if hit { "hit" } else { "miss" },
                             if hit { format!("at least {}", m.sure.len()) } else { format!("at most {}", m.maybe.len()) },
-                            cfg.limit,
-                            m.describe()
+                            if lo == hi { format!("{lo}") } else { format!("{lo} to {hi}") },
+                            cfg.limit_text(),
+                            m.sure,
+                            m.maybe
                         ),
                     });
                     m.lose();
+                } else if hit {
+                    m.hit(cfg.policy, k);
                 } else {
-                    m.sharpen();
-                    if hit {
-                        m.hit(cfg.policy, k);
-                    } else {
-                        m.store(cfg, k);
-                    }
+                    m.store(cfg, k);
                 }
-            } else if !hit {
-                m.gone.remove(&k);
             }
             add_twins(*dirty, control_failed, true, &mut out);
         }
@@ -1082,11 +1701,12 @@ fn sparse_step(cfg: &Cfg, ctx: &Ctx, st: &mut State, op: Op) -> Vec<Breach> {
             let left: BTreeSet<u32> = seen.iter().copied().filter(|k| mask & (1 << k) == 0).collect();
             m.adopt(&left, consistent);
         }
-        Op::Cache => {
+        Op::Cache | Op::ByTag => {
             if answer != 1 {
-                out.push(Breach { prop: "C12", what: format!("invalidate_cache({name:?}) answered false: the cache declares a tag and has been used") });
+                let what = if op == Op::Cache { format!("invalidate_cache({name:?}) answered false") } else { format!("invalidate_by_tag({:?}) returned {answer}, expected 1", cfg.tag) };
+                out.push(Breach { prop: "C12", what: format!("{what}: the cache declares the tag and has been used") });
             }
-            if m.n != Some(0) {
+            if m.n != Some((0, 0)) {
                 *dirty = true;
             }
             for k in m.maybe.clone() {
@@ -1096,6 +1716,7 @@ fn sparse_step(cfg: &Cfg, ctx: &Ctx, st: &mut State, op: Op) -> Vec<Breach> {
             *m = Sparse::empty();
             m.gone = gone;
         }
+        Op::Stale(_) => {}
     }
     out
 }
@@ -1141,18 +1762,28 @@ struct State {
     model: Model,
     /// sparse pass
     sparse: Sparse,
+    /// values and the verdict of `invalidate_on` (both passes)
+    vals: Vals,
     /// the keys the last history on this cache left behind (seen by its last observation)
     left: BTreeSet<String>,
     /// the function has been called (its callbacks are registered)
     used: bool,
     /// an invalidation has removed at least one entry of this cache (see `step`)
     dirty: bool,
-    /// C04 / C07 / C08 breaches seen in the control history (see `step`)
+    /// C04 / C05 / C07 / C08 breaches seen in the control history (see `step`)
     control_failed: BTreeSet<&'static str>,
 }
 impl Track {
     fn new(cfg: Cfg) -> Track {
-        Track { cfg, st: State { model: Model::empty(), sparse: Sparse::empty(), left: BTreeSet::new(), used: false, dirty: false, control_failed: BTreeSet::new() }, histories: Vec::new() }
+        Track { cfg, st: State {
+                model: Model::empty(),
+                sparse: Sparse::empty(),
+                vals: Vals::default(),
+                left: BTreeSet::new(),
+                used: false,
+                dirty: false,
+                control_failed: BTreeSet::new(),
+            }, histories: Vec::new() }
     }
 }
 
@@ -1184,6 +1815,9 @@ fn guarded<R>(f: impl FnOnce() -> R) -> Result<R, Breach> {
 /// and must list no key.
 fn begin(ctx: &Ctx, t: &mut Track) -> Result<(), Witness> {
     let cfg = t.cfg;
+    // every history starts with `invalidate_on` saying "valid"
+    set_stale(cfg.name, false);
+    t.st.vals.stale = false;
     if !t.st.used {
         return Ok(());
     }
@@ -1224,6 +1858,31 @@ fn begin(ctx: &Ctx, t: &mut Track) -> Result<(), Witness> {
     settle(ctx, &cfg, 0, "(reset between histories)", breaches)
 }
 
+/// One operation of a history, in the pass of the configuration.
+fn dispatch(cfg: &Cfg, ctx: &Ctx, st: &mut State, op: Op) -> Vec<Breach> {
+    if let Op::Stale(b) = op {
+        // no cache operation: only what `invalidate_on` answers from now on (ignored outside family R)
+        if cfg.family == Family::Restore {
+            set_stale(cfg.name, b);
+            st.vals.stale = b;
+        }
+        return Vec::new();
+    }
+    if !st.used && op.is_invalidation() {
+        // nothing is registered before the first call: the request would (rightly) find no cache
+        return Vec::new();
+    }
+    if !st.used {
+        st.used = true;
+        WARMED.fetch_add(1, Ordering::Relaxed);
+    }
+    OPS.fetch_add(1, Ordering::Relaxed);
+    match cfg.pass {
+        Pass::Dense => step(cfg, ctx, st, op),
+        Pass::Sparse => sparse_step(cfg, ctx, st, op),
+    }
+}
+
 fn run_history(ctx: &Ctx, t: &mut Track, ops: &[Op]) -> Result<(), Witness> {
     // the first history on a cache is its control (see `step`)
     let control = t.histories.is_empty();
@@ -1234,7 +1893,7 @@ fn run_history(ctx: &Ctx, t: &mut Track, ops: &[Op]) -> Result<(), Witness> {
     let note_control = |st: &mut State, breaches: &[Breach]| {
         if control {
             for b in breaches {
-                if matches!(b.prop, "C04" | "C07" | "C08") {
+                if is_capacity_prop(b.prop) {
                     st.control_failed.insert(b.prop);
                 }
             }
@@ -1242,10 +1901,7 @@ fn run_history(ctx: &Ctx, t: &mut Track, ops: &[Op]) -> Result<(), Witness> {
     };
     for (i, op) in ops.iter().enumerate() {
         note_progress(t, i + 1, &op.to_string());
-        let breaches = match cfg.pass {
-            Pass::Dense => step(&cfg, ctx, &mut t.st, *op),
-            Pass::Sparse => sparse_step(&cfg, ctx, &mut t.st, *op),
-        };
+        let breaches = dispatch(&cfg, ctx, &mut t.st, *op);
         note_control(&mut t.st, &breaches);
         settle(ctx, &cfg, i + 1, &op.to_string(), breaches)?;
     }
@@ -1276,13 +1932,21 @@ fn witness_text(line: &str, info: &RunInfo, cfg: &Cfg, histories: &[Vec<Op>]) ->
     s.push_str(line);
     s.push('\n');
     s.push_str("mode=macro-history\n");
-    s.push_str(&format!("flavour={}\npolicy={}\nlimit={}\npass={}\n", cfg.flavour.name(), cfg.policy.name(), cfg.limit, cfg.pass.name()));
+    s.push_str(&format!(
+        "family={}\nflavour={}\npolicy={}\nlimit={}\nmemory={}\npass={}\n",
+        cfg.family.name(),
+        cfg.flavour.name(),
+        cfg.policy.name(),
+        cfg.limit_text(),
+        cfg.max_memory.map_or("none".to_string(), |m| m.to_string()),
+        cfg.pass.name()
+    ));
     s.push_str(&format!("seed={}\nselftest={}\n", info.seed, info.selftest as u8));
     if let Some(p) = &info.prop {
         s.push_str(&format!("prop={p}\n"));
     }
     s.push_str("# every history run on this cache by the search, oldest first; the last one failed. The first one is the control\n");
-    s.push_str("# (calls only, on the never used cache); before each later one the cache is emptied with invalidate_with(name, |_| true)\n");
+    s.push_str("# (no invalidation, on the never used cache); before each later one the cache is emptied with invalidate_with(name, |_| true)\n");
     s.push_str("# (queue damage done by earlier ones carries over). pass=dense: the keys are listed after every operation;\n");
     s.push_str("# pass=sparse: only inside the history's own with: / allwith: operations and once at the end of each history.\n");
     for h in histories {
@@ -1461,6 +2125,10 @@ pub fn main_history(args: &[String]) -> i32 {
         }
     }
 
+    if let Err(e) = check_sizes() {
+        eprintln!("harness error: {e}");
+        return 2;
+    }
     let ctx = Ctx { prop: prop.clone(), selftest };
     *RUN.lock().unwrap_or_else(|e| e.into_inner()) = Some(RunInfo { seed, selftest, prop: prop.clone(), out: Some(out.clone()) });
     let n_cfgs = configs(Pass::Dense).len();
@@ -1484,12 +2152,7 @@ pub fn main_history(args: &[String]) -> i32 {
             for ci in order {
                 let mut rng = Rng::new(seed ^ ((ci as u64 + 1) << 32) ^ ((it as u64 + 1) << 8) ^ ((pass as u64) << 60));
                 let control = tracks[ci].histories.is_empty();
-                let ops = match (pass, control) {
-                    (Pass::Dense, true) => gen_control(&mut rng, pass_max_ops),
-                    (Pass::Dense, false) => gen_ops(&mut rng, pass_max_ops),
-                    (Pass::Sparse, true) => gen_sparse_control(&mut rng, pass_max_ops),
-                    (Pass::Sparse, false) => gen_sparse(&mut rng, tracks[ci].cfg.limit, pass_max_ops),
-                };
+                let ops = gen_history(&mut rng, &tracks[ci].cfg, control, pass_max_ops);
                 histories += 1;
                 if let Err(w) = run_history(&ctx, &mut tracks[ci], &ops) {
                     if w.prop == "HARNESS" {
@@ -1572,9 +2235,11 @@ fn main_replay(path: &str, force_selftest: bool, single: bool) -> i32 {
             return 2;
         }
     };
-    let (mut flavour, mut policy, mut limit, mut seed, mut selftest, mut prop) = (None, None, None, 0u64, force_selftest, None);
-    // files written before the sparse pass existed have no pass= line
+    let (mut flavour, mut policy, mut seed, mut selftest, mut prop) = (None, None, 0u64, force_selftest, None);
+    let (mut limit, mut memory): (Option<usize>, Option<usize>) = (None, None);
+    // files written before the sparse pass / the families existed have no pass= / family= line
     let mut pass = Pass::Dense;
+    let mut family = "base".to_string();
     let mut histories: Vec<Vec<Op>> = Vec::new();
     for line in text.lines() {
         let line = line.trim();
@@ -1595,6 +2260,8 @@ fn main_replay(path: &str, force_selftest: bool, single: bool) -> i32 {
             "flavour" => flavour = Some(v.to_string()),
             "policy" => policy = Some(v.to_string()),
             "limit" => limit = v.parse::<usize>().ok(),
+            "memory" => memory = v.parse::<usize>().ok(),
+            "family" => family = v.to_string(),
             "pass" => {
                 pass = match v {
                     "dense" => Pass::Dense,
@@ -1628,14 +2295,22 @@ fn main_replay(path: &str, force_selftest: bool, single: bool) -> i32 {
         }
     }
     let cfg = configs(pass).into_iter().find(|c| {
-        Some(c.flavour.name()) == flavour.as_deref() && Some(c.policy.name()) == policy.as_deref() && Some(c.limit) == limit
+        c.family.name() == family
+            && Some(c.flavour.name()) == flavour.as_deref()
+            && Some(c.policy.name()) == policy.as_deref()
+            && c.limit == limit
+            && c.max_memory == memory
     });
     let Some(cfg) = cfg else {
-        eprintln!("{path}: no configuration flavour={flavour:?} policy={policy:?} limit={limit:?}");
+        eprintln!("{path}: no configuration family={family} flavour={flavour:?} policy={policy:?} limit={limit:?} memory={memory:?}");
         return 2;
     };
     if cfg.policy == Pol::Random && !single {
         return replay_random(path, force_selftest);
+    }
+    if let Err(e) = check_sizes() {
+        eprintln!("harness error: {e}");
+        return 2;
     }
     let ctx = Ctx { prop: prop.clone(), selftest };
     *RUN.lock().unwrap_or_else(|e| e.into_inner()) = Some(RunInfo { seed, selftest, prop, out: None });
